@@ -2,7 +2,7 @@
 
 First part: translator (pure `ast`; re-extracts the tables / call arguments / signs / operators the theorems are about).
 Second part: generators, adapters to the real code, independent STAR reader/writer, judge."""
-import ast, re
+import ast, re, copy, hashlib
 import core
 from core import AnchorMissing
 
@@ -22,7 +22,109 @@ DOC = dict(
 
 
 def _tenths(x):
-    return int(round(float(x) * 10))
+    """a version constant of the source in tenths; a constant that is not a whole number of tenths (3.14) is NOT rounded:
+    it would change which versions pass the test, so the anchor is reported missing"""
+    t = float(x) * 10
+    if abs(t - round(t)) > 1e-9:
+        raise AnchorMissing(f"version constant {x!r} is not a whole number of tenths")
+    return int(round(t))
+
+
+# ---------------------------------------------------------------------------------------------------
+# rename-insensitive view of a function: local variables (everything bound inside the function; not parameters, not
+# attributes) are renamed positionally, in order of first occurrence, to the names the documented source uses
+# (DOC_LOCALS). A harmless rename of a local therefore gives literally the documented tree and every matcher below
+# works unchanged; an added / removed / reordered binding shifts the names and is seen. `body_dump` is the same view
+# with position names v0, v1, ... (docstring dropped), used for the whole-body digests.
+# ---------------------------------------------------------------------------------------------------
+DOC_LOCALS = {
+    "RelionMotl.convert_angles_from_relion": ["relion_angles", "columns_exist", "item", "angles", "rot_ZYZ", "rot_zxz"],
+    "RelionMotl.convert_angles_to_relion": ["rotations", "angles"],
+    "RelionMotl.convert_shifts": ["motl_column", "rln_column"],
+    "RelionMotl.parse_tomo_id": ["micrograph_names", "i", "tomo_idx", "tomo_names", "j", "tomo_position"],
+    "RelionMotl.parse_subtomo_id": ["image_names", "i", "subtomo_idx", "subtomo_names", "j", "halfset_num", "c", "subtomo_id_num"],
+    "RelionMotl.convert_to_motl": ["coord", "relion_column"],
+    "RelionMotl.create_relion_df": ["relion_df", "coord"],
+    "RelionMotl.prepare_particles_data": ["pattern", "findings", "longest_sequence", "tomo_name", "subtomo_name", "shifts_name", "_", "relion_df", "tomo_sequence",
+                                          "tomo_digits", "find_longest_sequence", "subtomo_sequence", "subtomo_digits", "subtomo_t_sequence", "subtomo_t_digits"],
+    "RelionMotl.get_version_specific_names": ["tomo_id_name", "subtomo_id_name", "shifts_id_names", "data_spec"],
+    "RelionMotl.get_version_from_file": ["version", "s", "frame_index"],
+    "RelionMotl.set_version": [],
+    "RelionMotl.set_pixel_size": ["pixel_size_optics", "optic_groups", "ps", "og"],
+    "RelionMotl.adapt_original_entries": ["original_data"],
+    "Motl.get_coordinates": ["coord"],
+    "Motl.get_angles": ["angles"],
+}
+
+
+def _params(fn):
+    a = fn.args
+    return {x.arg for x in a.posonlyargs + a.args + a.kwonlyargs} | ({a.vararg.arg} if a.vararg else set()) | ({a.kwarg.arg} if a.kwarg else set())
+
+
+def _canon(fn, names=None):
+    """deep copy of `fn` with its locals renamed positionally (to `names`, then v<k>); docstring dropped"""
+    fn = copy.deepcopy(fn)
+    if fn.body and isinstance(fn.body[0], ast.Expr) and isinstance(fn.body[0].value, ast.Constant) and isinstance(fn.body[0].value.value, str):
+        fn.body = fn.body[1:] or [ast.Pass()]
+    params = _params(fn)
+    bound = set()
+    for n in ast.walk(fn):
+        if isinstance(n, ast.Name) and isinstance(n.ctx, (ast.Store, ast.Del)):
+            bound.add(n.id)
+        elif isinstance(n, (ast.FunctionDef, ast.AsyncFunctionDef, ast.ClassDef)) and n is not fn:
+            bound.add(n.name)
+        elif isinstance(n, ast.ExceptHandler) and n.name:
+            bound.add(n.name)
+    bound -= params   # parameters keep their (API) names also when the body re-binds them
+    occ = sorted(((n.lineno, n.col_offset, n.id) for n in ast.walk(fn) if isinstance(n, ast.Name) and n.id in bound))
+    order = []
+    for _, _, name in occ:
+        if name not in order:
+            order.append(name)
+    for n in ast.walk(fn):
+        if isinstance(n, (ast.FunctionDef, ast.ClassDef)) and n is not fn and n.name in bound and n.name not in order:
+            order.append(n.name)
+    names = list(names or [])
+    mapping = {}
+    for k, name in enumerate(order):
+        mapping[name] = names[k] if k < len(names) else f"v{k}"
+    for n in ast.walk(fn):
+        if isinstance(n, ast.Name) and n.id in mapping:
+            n.id = mapping[n.id]
+        elif isinstance(n, (ast.FunctionDef, ast.ClassDef)) and n is not fn and n.name in mapping:
+            n.name = mapping[n.name]
+        elif isinstance(n, ast.ExceptHandler) and n.name in mapping:
+            n.name = mapping[n.name]
+    return fn
+
+
+def _fn(src, qual):
+    """the function `qual` of cryomotl.py, locals renamed to the documented names (see DOC_LOCALS)"""
+    return _canon(src.find(REL, qual), DOC_LOCALS.get(qual))
+
+
+def body_dump(src, qual):
+    fn = _canon(src.find(REL, qual), None)
+    return [core.norm_expr(st).replace("\n", ";") for st in fn.body]
+
+
+def body_digest(src, qual):
+    return hashlib.sha256("\n".join(body_dump(src, qual)).encode()).hexdigest()[:20]
+
+
+def signature_defaults(src, qual):
+    """[(param, default source text)] of the keyword parameters of a function"""
+    fn = src.find(REL, qual)
+    a = fn.args
+    pos = a.posonlyargs + a.args
+    out = []
+    for arg, d in zip(pos[len(pos) - len(a.defaults):], a.defaults):
+        out.append((arg.arg, ast.unparse(d)))
+    for arg, d in zip(a.kwonlyargs, a.kw_defaults):
+        if d is not None:
+            out.append((arg.arg, ast.unparse(d)))
+    return out
 
 
 def _ver_compare(test):
@@ -44,7 +146,7 @@ def _strs(node, n=None):
 
 
 def name_branches(src):
-    fn = src.find(REL, "RelionMotl.get_version_specific_names")
+    fn = _fn(src, "RelionMotl.get_version_specific_names")
     top = next((s for s in fn.body if isinstance(s, ast.If) and _ver_compare(s.test)), None)
     if top is None:
         raise AnchorMissing("get_version_specific_names: no `if version <op> <const>` chain")
@@ -132,12 +234,12 @@ def _slot_assignments(fn, frame, res, names, what):
 
 
 def export_call(src):
-    fn = src.find(REL, "RelionMotl.convert_angles_to_relion")
+    fn = _fn(src, "RelionMotl.convert_angles_to_relion")
     fs, arg, ts, res = _euler_calls(fn, "convert_angles_to_relion")
     if ast.unparse(arg) != "self.get_angles()":
         raise AnchorMissing("convert_angles_to_relion: from_euler is not fed self.get_angles()")
     slots = _slot_assignments(fn, "relion_df", res, ["rlnAngleRot", "rlnAngleTilt", "rlnAnglePsi"], "convert_angles_to_relion")
-    ga = src.find(REL, "Motl.get_angles")
+    ga = _fn(src, "Motl.get_angles")
     lists = [l for l in (_strs(n, 3) for n in ast.walk(ga) if isinstance(n, ast.List)) if l]
     if not lists or any(l != lists[0] for l in lists):
         raise AnchorMissing("Motl.get_angles: column list not found / inconsistent")
@@ -145,7 +247,7 @@ def export_call(src):
 
 
 def import_call(src):
-    fn = src.find(REL, "RelionMotl.convert_angles_from_relion")
+    fn = _fn(src, "RelionMotl.convert_angles_from_relion")
     fs, arg, ts, res = _euler_calls(fn, "convert_angles_from_relion")
     names = None
     for s in fn.body:
@@ -164,7 +266,7 @@ def import_call(src):
 
 
 def shifts(src):
-    fn = src.find(REL, "RelionMotl.convert_shifts")
+    fn = _fn(src, "RelionMotl.convert_shifts")
     loop = next((s for s in fn.body if isinstance(s, ast.For)), None)
     if loop is None or not (isinstance(loop.iter, ast.Call) and ast.unparse(loop.iter.func) == "zip" and ast.unparse(loop.iter.args[1]) == "self.shifts_id_names"):
         raise AnchorMissing("convert_shifts: for ... in zip((...), self.shifts_id_names)")
@@ -191,23 +293,28 @@ def shifts(src):
             v = s.body[0].value
             if not (isinstance(v, ast.BinOp) and ast.unparse(v.left) == "self.df[motl_column].values" and ast.unparse(v.right) == "self.pixel_size"):
                 raise AnchorMissing("convert_shifts: scaling expression")
-            scale = cv + (isinstance(v.op, ast.Div),)
+            opn = {ast.Div: "/", ast.Mult: "*"}.get(type(v.op))
+            if opn is None:
+                raise AnchorMissing("convert_shifts: pixel-size scaling is neither a division nor a multiplication")
+            scale = cv + (opn,)
     if scale is None:
         raise AnchorMissing("convert_shifts: no version-dependent scaling")
     return fields, bool(negated), scale
 
 
 def coords(src):
-    fn = src.find(REL, "RelionMotl.create_relion_df")
+    fn = _fn(src, "RelionMotl.create_relion_df")
     cols = None
     for s in ast.walk(fn):
         if isinstance(s, ast.Assign) and ast.unparse(s.value) == "self.get_coordinates()" and isinstance(s.targets[0], ast.Subscript):
             sl = s.targets[0].slice
             if ast.unparse(s.targets[0].value) == "relion_df.loc" and isinstance(sl, ast.Tuple) and isinstance(sl.elts[0], ast.Slice):
                 cols = _strs(sl.elts[1], 3)
+            elif ast.unparse(s.targets[0].value) == "relion_df":   # whole-column replacement `relion_df[[...]] = ...` (the repair proposed for C03-K1)
+                cols = _strs(sl, 3)
     if cols is None:
         raise AnchorMissing("create_relion_df: relion_df.loc[:, [...]] = self.get_coordinates()")
-    gc = src.find(REL, "Motl.get_coordinates")
+    gc = _fn(src, "Motl.get_coordinates")
     first = next((s for s in gc.body if isinstance(s, ast.If)), None)
     if first is None or ast.unparse(first.test) != "tomo_number is None":
         raise AnchorMissing("get_coordinates: `if tomo_number is None`")
@@ -223,12 +330,14 @@ def coords(src):
     ret = gc.body[-1]
     if not (isinstance(ret, ast.Return) and ast.unparse(ret.value) == ast.unparse(a.targets[0])):
         raise AnchorMissing("get_coordinates: does not return the sum")
-    # binning only touches version >= 4.0
-    return cols, terms, isinstance(a.value.op, ast.Add)
+    opn = {ast.Add: "+", ast.Sub: "-"}.get(type(a.value.op))
+    if opn is None:
+        raise AnchorMissing("get_coordinates: position and shift are combined by neither + nor -")
+    return cols, terms, opn
 
 
 def origin_zero(src):
-    fn = src.find(REL, "RelionMotl.prepare_particles_data")
+    fn = _fn(src, "RelionMotl.prepare_particles_data")
     for s in fn.body:
         if isinstance(s, ast.Assign) and ast.unparse(s.targets[0]) == "relion_df.loc[:, shifts_name]":
             return ast.unparse(s.value).replace(" ", "") == "np.zeros((relion_df.shape[0],3))"
@@ -236,7 +345,7 @@ def origin_zero(src):
 
 
 def halfset_table(src):
-    fn = src.find(REL, "RelionMotl.create_relion_df")
+    fn = _fn(src, "RelionMotl.create_relion_df")
     out = []
     for s in ast.walk(fn):
         if isinstance(s, ast.Assign) and isinstance(s.targets[0], ast.Subscript) and ast.unparse(s.targets[0].value) == "relion_df.loc":
@@ -252,7 +361,7 @@ def halfset_table(src):
 
 
 def import_pairs(src):
-    fn = src.find(REL, "RelionMotl.convert_to_motl")
+    fn = _fn(src, "RelionMotl.convert_to_motl")
     loop = next((s for s in fn.body if isinstance(s, ast.For)), None)
     if loop is None or ast.unparse(loop.target) != "coord":
         raise AnchorMissing("convert_to_motl: for coord in (...)")
@@ -266,7 +375,7 @@ def import_pairs(src):
         m = re.fullmatch(r"self\.assign_column\(relion_df, \{'class': '(\w+)'\}\)", ast.unparse(s))
         if m:
             cls = m.group(1)
-    ex = src.find(REL, "RelionMotl.create_relion_df")
+    ex = _fn(src, "RelionMotl.create_relion_df")
     ecls = None
     for s in ast.walk(ex):
         if isinstance(s, ast.Assign):
@@ -284,8 +393,8 @@ def import_pairs(src):
 
 
 def parse_numbers(src):
-    pt = ast.unparse(src.find(REL, "RelionMotl.parse_tomo_id"))
-    ps_fn = src.find(REL, "RelionMotl.parse_subtomo_id")
+    pt = ast.unparse(_fn(src, "RelionMotl.parse_tomo_id"))
+    ps_fn = _fn(src, "RelionMotl.parse_subtomo_id")
     ps = ast.unparse(ps_fn)
     if "tomo_idx.append(float(re.search('\\\\d+', j).group()))" not in pt or "[i.rsplit('/', 1)[-1] for i in micrograph_names]" not in pt:
         raise AnchorMissing("parse_tomo_id: first number of the last path component")
@@ -302,7 +411,7 @@ def parse_numbers(src):
 
 
 def renumber_skeleton(src):
-    fn = src.find(REL, "RelionMotl.parse_subtomo_id")
+    fn = _fn(src, "RelionMotl.parse_subtomo_id")
     top = None
     for s in fn.body:
         if isinstance(s, ast.If) and "rlnRandomSubset" in ast.unparse(s.test):
@@ -313,7 +422,7 @@ def renumber_skeleton(src):
 
 
 def geom3_and_unique(src):
-    fn = src.find(REL, "RelionMotl.parse_subtomo_id")
+    fn = _fn(src, "RelionMotl.parse_subtomo_id")
     txt = [core.norm_expr(s) for s in fn.body]
     need = ["self.df['geom3']=subtomo_idx", "self.df['subtomo_id']=subtomo_idx",
             "iflen(np.unique(subtomo_idx))!=len(subtomo_idx):\nself.df['subtomo_id']=np.arange(1,relion_df.shape[0]+1,1)"]
@@ -325,7 +434,7 @@ def geom3_and_unique(src):
 
 
 def file_versions(src):
-    fn = src.find(REL, "RelionMotl.get_version_from_file")
+    fn = _fn(src, "RelionMotl.get_version_from_file")
     out = []
     for n in ast.walk(fn):
         if isinstance(n, ast.If) and isinstance(n.test, ast.Compare) and isinstance(n.test.left, ast.Constant) and isinstance(n.test.ops[0], ast.Eq):
@@ -341,6 +450,139 @@ def file_versions(src):
     return out
 
 
+def tomo_fallback(src):
+    """`parse_tomo_id`, elif branch: (cmp, thr), (position if true, position else), index of the number"""
+    fn = _fn(src, "RelionMotl.parse_tomo_id")
+    top = next((st for st in fn.body if isinstance(st, ast.If)), None)
+    if top is None or core.norm_expr(top.test) != "self.tomo_id_nameinrelion_df.columns" or len(top.orelse) != 1 or not isinstance(top.orelse[0], ast.If) \
+            or core.norm_expr(top.orelse[0].test) != "self.subtomo_id_nameinrelion_df.columns":
+        raise AnchorMissing("parse_tomo_id: if tomo column / elif subtomo column")
+    br = top.orelse[0]
+    sel = next((st for st in br.body if isinstance(st, ast.If) and _ver_compare(st.test)), None)
+    if sel is None or len(sel.body) != 1 or len(sel.orelse) != 1:
+        raise AnchorMissing("parse_tomo_id: fallback `if self.version <op> <const>: tomo_position = ...`")
+    pos = []
+    for st in (sel.body[0], sel.orelse[0]):
+        if not (isinstance(st, ast.Assign) and isinstance(st.targets[0], ast.Name)):
+            raise AnchorMissing("parse_tomo_id: fallback position assignment")
+        try:
+            pos.append((st.targets[0].id, int(ast.literal_eval(st.value))))
+        except Exception:
+            raise AnchorMissing("parse_tomo_id: fallback position is not an integer literal")
+    if pos[0][0] != pos[1][0]:
+        raise AnchorMissing("parse_tomo_id: fallback branches assign different names")
+    txt = ast.unparse(br)
+    if f"[i.rsplit('/', 1)[{pos[0][0]}] for i in micrograph_names]" not in txt:
+        raise AnchorMissing("parse_tomo_id: fallback does not split the subtomogram name at its last slash")
+    m = re.search(r"tomo_idx\.append\(float\(re\.findall\('\\\\d\+', j\)\[(\d+)\]\)\)", txt)
+    if not m:
+        raise AnchorMissing("parse_tomo_id: fallback k-th number")
+    if "micrograph_names = relion_df[self.subtomo_id_name].tolist()" not in txt or "self.df['tomo_id'] = tomo_idx" not in txt:
+        raise AnchorMissing("parse_tomo_id: fallback source column / target column")
+    return list(_ver_compare(sel.test)), [pos[0][1], pos[1][1]], int(m.group(1))
+
+
+def version_sniff(src):
+    """`set_version`: [(clauses, tenths)] + default; a clause is an any-of list of column names, a rule needs all its clauses"""
+    fn = _fn(src, "RelionMotl.set_version")
+    chain = next((st for st in fn.body if isinstance(st, ast.If) and core.norm_expr(st.test) == "versionisnotNone"), None)
+    if chain is None or core.norm_expr(chain.body[0]) != "self.version=version":
+        raise AnchorMissing("set_version: `if version is not None: self.version = version`")
+
+    def atom(t):
+        if isinstance(t, ast.Compare) and len(t.ops) == 1 and isinstance(t.ops[0], ast.In) and isinstance(t.left, ast.Constant) \
+                and core.norm_expr(t.comparators[0]) == "input_df.columns":
+            return t.left.value
+        raise AnchorMissing(f"set_version: test {ast.unparse(t)[:60]}")
+
+    def clauses(t):
+        if isinstance(t, ast.BoolOp) and isinstance(t.op, ast.Or):
+            return [[atom(v) for v in t.values]]
+        if isinstance(t, ast.BoolOp) and isinstance(t.op, ast.And):
+            return [[atom(v)] for v in t.values]
+        return [[atom(t)]]
+
+    def ver_of(body):
+        st = body[0]
+        if isinstance(st, ast.Assign) and core.norm_expr(st.targets[0]) == "self.version":
+            return _tenths(ast.literal_eval(st.value))
+        raise AnchorMissing("set_version: branch does not assign self.version")
+    rules, node = [], chain
+    while len(node.orelse) == 1 and isinstance(node.orelse[0], ast.If):
+        node = node.orelse[0]
+        rules.append([clauses(node.test), ver_of(node.body)])
+    if not node.orelse:
+        raise AnchorMissing("set_version: no default branch")
+    return rules, ver_of(node.orelse)
+
+
+def pixel_source(src):
+    """`set_pixel_size`: the rlnPixelSize column is taken per row"""
+    fn = _fn(src, "RelionMotl.set_pixel_size")
+    for st in fn.body:
+        if isinstance(st, ast.If) and core.norm_expr(st.test) == "'rlnPixelSize'inself.relion_df.columns":
+            if len(st.body) == 1 and isinstance(st.body[0], ast.Assign) and core.norm_expr(st.body[0].targets[0]) == "self.pixel_size":
+                return core.norm_expr(st.body[0].value)
+    raise AnchorMissing("set_pixel_size: `if 'rlnPixelSize' in self.relion_df.columns: self.pixel_size = ...`")
+
+
+def version_fallback(src):
+    """`create_relion_df`: `if self.version is None: self.version = <const>`"""
+    fn = _fn(src, "RelionMotl.create_relion_df")
+    for n in ast.walk(fn):
+        if isinstance(n, ast.If) and core.norm_expr(n.test) == "self.versionisNone" and isinstance(n.body[0], ast.Assign):
+            return _tenths(ast.literal_eval(n.body[0].value))
+    raise AnchorMissing("create_relion_df: `if self.version is None: self.version = ...`")
+
+
+DEFAULT_SIGS = ["RelionMotl.__init__", "RelionMotl.create_relion_df", "RelionMotl.write_out", "emmotl2relion", "relion2emmotl", "stopgap2relion", "relion2stopgap"]
+DOC_DEFAULTS = [
+    "RelionMotl.default_version=3.1",
+    "RelionMotl.__init__(input_motl=None,version=None,pixel_size=None,binning=None,optics_data=None)",
+    "RelionMotl.create_relion_df(tomo_format='',subtomo_format='',use_original_entries=False,keep_all_entries=False,version=None,add_object_id=False,"
+    "add_subunit_id=False,binning=None,pixel_size=None,adapt_object_attr=False)",
+    "RelionMotl.write_out(write_optics=True,tomo_format='',subtomo_format='',use_original_entries=False,keep_all_entries=False,version=None,add_object_id=False,"
+    "add_subunit_id=False,binning=None,pixel_size=None,optics_data=None)",
+    "emmotl2relion(output_motl_path=None,tomo_format='',subtomo_format='',relion_version=3.1,pixel_size=1.0,binning=1.0,flip_handedness=False,tomo_dim=None,"
+    "write_optics=False,optics_data=None,add_object_id=False,add_subunit_id=False)",
+    "relion2emmotl(output_motl_path=None,relion_version=None,pixel_size=None,binning=None,update_coordinates=False,flip_handedness=False,tomo_dim=None)",
+    "stopgap2relion(output_motl_path=None,tomo_format='',subtomo_format='',relion_version=3.1,pixel_size=1.0,binning=1.0,flip_handedness=False,tomo_dim=None,"
+    "write_optics=False,optics_data=None,add_object_id=False,add_subunit_id=False)",
+    "relion2stopgap(output_motl_path=None,update_coordinates=False,reset_index=False)",
+]
+
+
+def defaults(src):
+    out = ["RelionMotl.default_version=" + ast.unparse(src.class_attr(REL, "RelionMotl", "default_version"))]
+    for q in DEFAULT_SIGS:
+        out.append(q + "(" + ",".join(f"{a}={d}" for a, d in signature_defaults(src, q)) + ")")
+    return out
+
+
+DIGEST_FNS = ["RelionMotl.set_pixel_size", "RelionMotl.set_version", "RelionMotl.get_version_from_file", "RelionMotl.convert_angles_from_relion",
+              "RelionMotl.convert_angles_to_relion", "RelionMotl.convert_shifts", "RelionMotl.parse_tomo_id", "RelionMotl.parse_subtomo_id",
+              "RelionMotl.convert_to_motl", "RelionMotl.adapt_original_entries", "Motl.get_coordinates", "Motl.get_angles",
+              "emmotl2relion", "relion2emmotl", "stopgap2relion", "relion2stopgap"]
+DOC_DIGESTS = {
+    'RelionMotl.set_pixel_size': '1b5c3f0c50d8ae26926a',
+    'RelionMotl.set_version': '346ecb6e55b93a6ba181',
+    'RelionMotl.get_version_from_file': 'c3e6af07950691c57236',
+    'RelionMotl.convert_angles_from_relion': '9fb4cee413da502df684',
+    'RelionMotl.convert_angles_to_relion': '82605eee039c6bde354e',
+    'RelionMotl.convert_shifts': 'b3b41f06be67edb42f16',
+    'RelionMotl.parse_tomo_id': '9524518d16f9afbaefaf',
+    'RelionMotl.parse_subtomo_id': '8055e1f9677c6f7c907b',
+    'RelionMotl.convert_to_motl': 'bc7775aa2dd4d6c8622d',
+    'RelionMotl.adapt_original_entries': '6454acff4e8920186214',
+    'Motl.get_coordinates': '5ec15ffea2dba941e082',
+    'Motl.get_angles': 'eeb264a64a5942bc12e4',
+    'emmotl2relion': 'd5c20eefdbf866a98707',
+    'relion2emmotl': '6933cca60b7eab0661a5',
+    'stopgap2relion': '17217d3e69e374b3ef33',
+    'relion2stopgap': 'ef4a72acfd7738b57520',
+}
+
+
 def _slots(xs):
     return "[" + ", ".join(f"({core.lean_str(n)}, {'true' if neg else 'false'}, {k})" for n, neg, k in xs) + "]"
 
@@ -353,7 +595,19 @@ def _b(x):
     return "true" if x else "false"
 
 
+DOC_BRANCHES = [["<=", 30, "rlnMicrographName", "rlnImageName", ["rlnOriginX", "rlnOriginY", "rlnOriginZ"], "data_"],
+                ["==", 31, "rlnMicrographName", "rlnImageName", ["rlnOriginXAngst", "rlnOriginYAngst", "rlnOriginZAngst"], "data_particles"],
+                ["else", 0, "rlnTomoName", "rlnTomoParticleName", ["rlnOriginXAngst", "rlnOriginYAngst", "rlnOriginZAngst"], "data_particles"]]
+DOC_RENUMBER = ["'rlnRandomSubset'inrelion_df.columnsandrelion_df['rlnRandomSubset'].isin([1,2]).all()", "halfset_num=relion_df['rlnRandomSubset'].values%2",
+                "c=1ifhalfset_num[0]==1else2", "subtomo_id_num=[c]",
+                "foriinrange(1,self.df.shape[0]):;ifc%2==1andhalfset_num[i]==1or(c%2==0andhalfset_num[i]==0):;c+=2;else:;c+=1;subtomo_id_num.append(c)",
+                "self.df['subtomo_id']=subtomo_id_num"]
+DOC_SNIFF = [[[["rlnTomoName", "rlnTomoParticleName"]], 40], [[["rlnMicrographName"], ["rlnOriginXAngst"]], 31], [[["rlnMicrographName"], ["rlnOriginX"]], 30]]
+
+
 def translate(src):
+    """every anchor falls back to the DOCUMENTED value when it is missing (the failed anchor is recorded and `anchorsOk` is false, which
+    breaks `anchors_ok`): the model then keeps the documented behaviour and the correspondence run can still look for a failing input"""
     A = src.anchor
     c30 = A("RelionMotl.columns_v3_0", lambda: src.literal(src.class_attr(REL, "RelionMotl", "columns_v3_0")))
     c31 = A("RelionMotl.columns_v3_1", lambda: src.literal(src.class_attr(REL, "RelionMotl", "columns_v3_1")))
@@ -370,19 +624,34 @@ def translate(src):
     rs = A("parse_subtomo_id:halfset-renumber-loop", lambda: renumber_skeleton(src))
     A("parse_subtomo_id:geom3+uniqueness", lambda: geom3_and_unique(src))
     fv = A("get_version_from_file:table", lambda: [list(p) for p in file_versions(src)])
-    # fall back to the documented values for anything missing (anchorsOk=false already breaks Props)
+    tf = A("parse_tomo_id:fallback-from-subtomogram-name", lambda: list(tomo_fallback(src)))
+    vs = A("set_version:column-sniffing", lambda: list(version_sniff(src)))
+    pxs = A("set_pixel_size:rlnPixelSize-per-row", lambda: pixel_source(src))
+    vf = A("create_relion_df:version-fallback", lambda: version_fallback(src))
+    df = A("signature-defaults", lambda: defaults(src))
+    dg = A("whole-body-digests", lambda: [[q, body_digest(src, q)] for q in DIGEST_FNS])
+    for q in DIGEST_FNS:   # the normalised bodies themselves go into the evidence (so a changed digest can be diffed)
+        A("body:" + q, lambda q=q: body_dump(src, q))
     c30 = c30 or DOC["columnsV30"]; c31 = c31 or DOC["columnsV31"]; c4 = c4 or DOC["columnsV4"]
-    nb = nb or []
-    ex = ex or ["ZXZ", "ZYZ", ["phi", "theta", "psi"], []]
-    im = im or ["ZYZ", "zxz", ["rlnAngleRot", "rlnAngleTilt", "rlnAnglePsi"], []]
-    sh = sh or [["shift_x", "shift_y", "shift_z"], False, (">=", 31, False)]
-    co = co or [[], [], False]
-    hs = hs or []
-    ip = ip or [[], ("class", "")]
-    pn = pn or [0, 0, (">=", 40)]
-    rs = rs or []
-    fv = fv or []
+    nb = nb or DOC_BRANCHES
+    ex = ex or ["ZXZ", "ZYZ", ["phi", "theta", "psi"], [("rlnAngleRot", True, 0), ("rlnAngleTilt", False, 1), ("rlnAnglePsi", True, 2)]]
+    im = im or ["ZYZ", "zxz", ["rlnAngleRot", "rlnAngleTilt", "rlnAnglePsi"], [("phi", True, 2), ("theta", True, 1), ("psi", True, 0)]]
+    sh = sh or [["shift_x", "shift_y", "shift_z"], True, (">=", 31, "/")]
+    co = co or [["rlnCoordinateX", "rlnCoordinateY", "rlnCoordinateZ"], [["x", "y", "z"], ["shift_x", "shift_y", "shift_z"]], "+"]
+    oz = True if oz is None else oz
+    hs = hs or [[0, 2], [1, 1]]
+    ip = ip or [[("x", "rlnCoordinateX"), ("y", "rlnCoordinateY"), ("z", "rlnCoordinateZ")], ("class", "rlnClassNumber")]
+    pn = pn or [0, 1, (">=", 40)]
+    rs = rs or DOC_RENUMBER
+    fv = fv or [["data_", 30], ["data_particles+tomo", 40], ["data_particles", 31]]
+    tf = tf or [["<=", 31], [-1, 0], 0]
+    vs = vs or [DOC_SNIFF, 31]
+    pxs = pxs or "self.relion_df['rlnPixelSize'].values"
+    vf = 31 if vf is None else vf
+    df = df or DOC_DEFAULTS
+    dg = dg or [[q, DOC_DIGESTS.get(q, "")] for q in DIGEST_FNS]
     branches = "[" + ", ".join(f"({core.lean_str(b[0])}, {b[1]}, {core.lean_str(b[2])}, {core.lean_str(b[3])}, {core.lean_str_list(b[4])}, {core.lean_str(b[5])})" for b in nb) + "]"
+    sniff = "[" + ", ".join("([" + ", ".join(core.lean_str_list(cl) for cl in r[0]) + f"], {r[1]})" for r in vs[0]) + "]"
     return f"""-- GENERATED by harness/props/c03.py from {REL}; do not edit
 namespace CryoCat.Gen.C03
 def anchorsOk : Bool := {_b(src.ok)}
@@ -402,10 +671,10 @@ def shiftFields : List String := {core.lean_str_list(sh[0])}
 def shiftNegated : Bool := {_b(sh[1])}
 def shiftScaleCmp : String := {core.lean_str(sh[2][0])}
 def shiftScaleThr : Nat := {sh[2][1]}
-def shiftScaleDivides : Bool := {_b(sh[2][2])}
+def shiftScaleOp : String := {core.lean_str(sh[2][2])}
 def coordColumns : List String := {core.lean_str_list(co[0])}
 def coordTerms : List (List String) := [{", ".join(core.lean_str_list(t) for t in co[1])}]
-def coordAdds : Bool := {_b(co[2])}
+def coordOp : String := {core.lean_str(co[2])}
 def exportOriginZero : Bool := {_b(oz)}
 def halfsetByParity : List (Nat × Nat) := [{", ".join(f"({a}, {b})" for a, b in hs)}]
 def importCoordPairs : List (String × String) := [{", ".join(f"({core.lean_str(a)}, {core.lean_str(b)})" for a, b in ip[0])}]
@@ -416,6 +685,16 @@ def subtomoWholeCmp : String := {core.lean_str(pn[2][0])}
 def subtomoWholeThr : Nat := {pn[2][1]}
 def renumberSkeleton : List String := {core.lean_str_list(rs)}
 def fileVersions : List (String × Nat) := [{", ".join(f"({core.lean_str(a)}, {b})" for a, b in fv)}]
+def tomoFallbackCmp : String := {core.lean_str(tf[0][0])}
+def tomoFallbackThr : Nat := {tf[0][1]}
+def tomoFallbackPositions : Int × Int := ({tf[1][0]}, {tf[1][1]})
+def tomoFallbackIndex : Nat := {tf[2]}
+def versionSniff : List (List (List String) × Nat) := {sniff}
+def versionSniffDefault : Nat := {vs[1]}
+def pixelSizeFromColumn : String := {core.lean_str(pxs)}
+def exportVersionFallback : Nat := {vf}
+def defaults : List String := {core.lean_str_list(df)}
+def bodyDigests : List (String × String) := [{", ".join(f"({core.lean_str(a)}, {core.lean_str(b)})" for a, b in dg)}]
 end CryoCat.Gen.C03
 """
 
@@ -428,25 +707,36 @@ import numpy as np
 from core import f2b, b2f
 
 PROP = "C03"
-COUNT = {"quick": 120, "thorough": 3000, "search": 600}
+COUNT = {"quick": 90, "thorough": 2000, "search": 500}
 PARALLEL = True
 RULE = ("two case kinds from one PRNG. 'cc': a cryoCAT particle list (N in 1..300, mostly 1..25) x version in {3.0,3.1,4.0} x pixel size x name formats "
         "('' / documented $xxx,$yyy paddings incl. too-narrow paddings and leftover shorter sequences) x optics block on/off (>=3.1), exported by "
-        "create_relion_df, by write_out (file re-read by the harness's own STAR reader), re-imported from the DataFrame and from the file, and through "
-        "emmotl2relion/relion2emmotl; 'rln': RELION rows written by the harness's own writer (origins in px for 3.0, Angstrom for >=3.1; pixel size from an "
-        "rlnPixelSize column, a single-group optics block, or the pixel_size argument; half-set column present with both values / absent) imported from a "
-        "DataFrame and from the file. Orientation classes: uniform, gimbal lock (theta in {0,180,-180,360}), angles outside the canonical ranges, 45-degree "
-        "lattice, near-gimbal. Positions/shifts of either sign, on a 1/64 grid (exact through 6-decimal files) or arbitrary doubles. binning=1 only. "
-        "non-trivial = N>=2, some non-zero shift/origin, some theta outside {0,180} and a format or name with padding; distinct = distinct case content. "
-        "Half-set columns with a single value (always so for N=1), parities disagreeing with the parsed numbers, and repeated subtomogram numbers are generated. "
-        "Not generated: multi-group optics blocks")
+        "create_relion_df (A), by write_out (B, file re-read by the harness's own STAR reader), re-imported from the DataFrame (C; version and pixel size sniffed from the "
+        "frame in a share) and from the file (D), through emmotl2relion/relion2emmotl (E) and stopgap2relion (G, share). 20 % of the lists hold x,y,z as int64 columns "
+        "with fractional shifts. ~30 % of the calls OMIT a keyword whose documented default equals the wanted value (version 3.1, binning for < 4.0 / the converters, "
+        "empty formats, write_optics, pixel_size 1.0) so the defaults are exercised. 35 % pass the SAME caller-owned DataFrame object to every call; it is compared with "
+        "a pristine copy after each call. 'rln': RELION rows written by the harness's own writer (origins in px for 3.0, Angstrom for >=3.1; pixel size from a PER-ROW "
+        "rlnPixelSize column (per tomogram / per row / uniform), a single-group optics block, the pixel_size argument, or the documented default 1.0; half-set column "
+        "both values / single / absent; tomogram-name column present or ABSENT (fallback: number read from the subtomogram name); columns in canonical or SHUFFLED "
+        "order; version passed or SNIFFED from the columns; coordinates float or whole numbers held as int64 / written without decimal point) imported from a "
+        "DataFrame (M) and from the file (F); in a share the same DataFrame object is imported twice (M2, frame compared with a pristine copy) and the same file path is "
+        "rewritten with the rows reversed and imported again (F2); import -> drop/reorder rows -> create_relion_df(use_original_entries=True[, keep_all_entries=True]) "
+        "(U); relion2stopgap from the file (H). Orientation classes: uniform, gimbal lock (theta in {0,180,-180,360}), angles outside the canonical ranges, 45-degree "
+        "lattice, near-gimbal. Positions/shifts of either sign, on a 1/64 grid (exact through 6-decimal files) or arbitrary doubles. BINNING IS OUTSIDE THE QUANTIFIER: "
+        "only binning=1 (or the keyword omitted where the default is 1 / unused) is generated. non-trivial = N>=2, some non-zero shift/origin, some theta outside "
+        "{0,180} and a format or name with padding; distinct = distinct case content. Half-set columns with a single value (always so for N=1), parities disagreeing "
+        "with the parsed numbers, and repeated subtomogram numbers are generated. Not generated: multi-group optics blocks, numeric name cells without a tomogram "
+        "column (their code is frozen by `bodies_documented`); under keep_all_entries=True the position is judged only for rows whose loaded origin is zero (the "
+        "documented mode keeps coordinates as loaded)")
 ASSUMPTIONS = ["scipy Rotation.from_euler/as_euler: as_euler(seq) returns a triple whose from_euler(seq) matrix is the matrix given (post-condition of the theorems; "
-               "checked on every generated particle through the driver's `post` vs `fed` matrices, and by probes incl. gimbal lock)",
+               "checked on every generated particle through the driver's `post` vs `fed` matrices, and by probes incl. gimbal lock); the model itself runs with the "
+               "driver's own extractor, whose post-condition is checked the same way",
                "numpy float64 +, unary -, / are IEEE-754 and equal Lean Float (coordinates and shifts compared bit for bit in memory)",
                "Lean Float.cos/sin and numpy cos/sin agree to 1e-12 on the generated angles (matrices compared with that tolerance)",
                "Python str(int(x)).zfill(k), str.replace, re.findall(r'\\d+') behave as modelled (generated names compared string for string)",
                "pandas to_numeric parses the decimal text of a STAR cell to the nearest double up to 1e-9 relative (file paths use tolerances)"]
-TRUSTED = ["harness STAR reader/writer in props/c03.py (read_star, write_relion_star)", "harness rotation matrices Rz/Ry/Rx (numpy cos/sin) in props/c03.py"]
+TRUSTED = ["harness STAR reader/writer in props/c03.py (read_star, write_relion_star)", "harness rotation matrices Rz/Ry/Rx (numpy cos/sin) in props/c03.py",
+           "driver's own Euler extractors (Drv/C03 extractZYZ/extractzxz): their post-condition is checked per particle (`own_post` vs `fed`)"]
 TOL_MEM, TOL_FILE, TOL_MODEL, TOL_POST = 1e-9, 1e-6, 1e-11, 1e-8
 POS_TOL_FILE = 1.5e-6
 
@@ -566,7 +856,7 @@ ANGLE_CLASSES = ["uniform", "gimbal", "noncanon", "lattice", "neargimbal", "deci
 
 
 def _px(rng):
-    return rng.choice([1.0, 1.35, 2.5, 0.8275, 4.0, 10.71, 13.48, round(rng.uniform(0.5, 15), 4)])
+    return rng.choice([1.0, 1.0, 1.35, 2.5, 0.8275, 4.0, 10.71, 13.48, round(rng.uniform(0.5, 15), 4)])
 
 
 def _n(rng, tier):
@@ -615,20 +905,25 @@ def _sub_ids(rng, n):
     return ids
 
 
-def gen_cc(rng, tier):
-    ver = rng.choice([30, 31, 40])
+def gen_cc(rng, tier, force=None):
+    force = force or {}
+    ver = force.get("ver", rng.choice([30, 31, 40]))
     px = _px(rng)
     n = _n(rng, tier)
     tf, sf = _formats(rng, ver, px)
     cls_mix = rng.random() < 0.5
     acls = rng.choice(ANGLE_CLASSES)
     exact = rng.random() < 0.7
+    xyz_int = force.get("xyz_int", rng.random() < 0.2)
     parts, ids = [], []
     tomos = sorted(rng.sample(range(0, 400), rng.randint(1, min(4, n))))
     subs = _sub_ids(rng, n)
     for i in range(n):
         a = _angles(rng, rng.choice(ANGLE_CLASSES) if cls_mix else acls)
-        if exact:
+        if xyz_int:
+            pos = [float(rng.randint(-500, 4000)) for _ in range(3)]
+            sh = [_grid(rng, -8, 8) for _ in range(3)] if exact else [rng.uniform(-8, 8) for _ in range(3)]
+        elif exact:
             pos = [_grid(rng, -500, 4000) for _ in range(3)]
             sh = [0.0 if rng.random() < 0.2 else _grid(rng, -8, 8) for _ in range(3)]
         else:
@@ -640,12 +935,57 @@ def gen_cc(rng, tier):
         ids.sort(key=lambda t: t[0])
     for i in range(n):
         ids[i][1] = subs[i]
-    return dict(kind="cc", ver=ver, px=f2b(px), tomo_fmt=tf, sub_fmt=sf, optics=(ver >= 31 and rng.random() < 0.5), parts=parts, ids=ids,
-                angles=("mixed" if cls_mix else acls), grid=exact)
+    optics = (ver >= 31 and rng.random() < 0.5)
+    # G1: keywords omitted where the documented default is the wanted value
+    omit = []
+    P = lambda p: rng.random() < p
+    if ver == 31 and P(0.4):
+        omit.append("version")          # RelionMotl(..) / create_relion_df: default_version / `self.version = 3.1`
+    if ver == 31 and P(0.4):
+        omit.append("relion_version")   # emmotl2relion / stopgap2relion: relion_version=3.1
+    if ver < 40 and P(0.35):
+        omit.append("binning")          # RelionMotl(.., binning=None): unused below 4.0
+    if P(0.35):
+        omit.append("conv_binning")     # converters: binning=1.0
+    if tf == "" and sf == "" and P(0.6):
+        omit.append("formats")          # tomo_format="" / subtomo_format=""
+    if optics and P(0.35):
+        omit.append("write_optics")     # write_out: write_optics=True
+    if not optics and P(0.35):
+        omit.append("conv_write_optics")  # converters: write_optics=False
+    if px == 1.0 and P(0.6):
+        omit.append("conv_pixel_size")  # converters: pixel_size=1.0
+    if P(0.4):
+        omit.append("c_version")        # re-import of the exported frame: version sniffed from its columns
+    if ver < 40 and P(0.4):
+        omit.append("c_pixel_size")     # re-import of the exported frame: pixel size from its rlnPixelSize column
+    return dict(kind="cc", ver=ver, px=f2b(px), tomo_fmt=tf, sub_fmt=sf, optics=optics, parts=parts, ids=ids,
+                angles=("mixed" if cls_mix else acls), grid=exact, xyz_int=xyz_int, omit=omit, share_df=force.get("share_df", P(0.35)), sg=P(0.3))
 
 
-def gen_rln(rng, tier):
-    ver = rng.choice([30, 31, 40])
+def rln_columns(case):
+    """column names of the RELION table of an 'rln' case, in the order of the case"""
+    ver = case["ver"]
+    tname, sname, onames, _ = DOC_NAMES[ver]
+    cols = ["rlnCoordinateX", "rlnCoordinateY", "rlnCoordinateZ", "rlnAngleRot", "rlnAngleTilt", "rlnAnglePsi"]
+    if case.get("tomo_col", True):
+        cols.append(tname)
+    cols += [sname] + onames + ["rlnClassNumber"]
+    if case["halfsets"] is not None:
+        cols.append("rlnRandomSubset")
+    if case["pxsrc"] == "column":
+        cols.insert(8, "rlnPixelSize")
+    if ver >= 31:
+        cols.append("rlnOpticsGroup")
+    order = case.get("colorder")
+    if order is not None and sorted(order) == list(range(len(cols))):
+        cols = [cols[k] for k in order]
+    return cols
+
+
+def gen_rln(rng, tier, force=None):
+    force = force or {}
+    ver = force.get("ver", rng.choice([30, 31, 40]))
     px = _px(rng)
     n = _n(rng, tier)
     acls = rng.choice(ANGLE_CLASSES)
@@ -656,11 +996,12 @@ def gen_rln(rng, tier):
     if rng.random() < 0.15 and n >= 3:  # repeated numbers: code renumbers 1..n (or by half-set)
         subs = [rng.randint(1, n // 2 + 1) for _ in range(n)]
     hs_mode = rng.choice(["both", "both", "single", "none"]) if n >= 2 else rng.choice(["single", "none"])
+    coord_int = force.get("coord_int", rng.random() < 0.15)
     rows, tn, sn, tids, cl = [], [], [], [], []
     for i in range(n):
         a = _angles(rng, acls)
         a = [round(v, 6) for v in a]
-        co = [_grid(rng, -200, 4000) for _ in range(3)]
+        co = [float(rng.randint(-200, 4000)) for _ in range(3)] if coord_int else [_grid(rng, -200, 4000) for _ in range(3)]
         og = [0.0 if rng.random() < 0.15 else _grid(rng, -30, 30) for _ in range(3)]
         rows.append([f2b(v) for v in co + og + a])
         t = rng.choice(tomos)
@@ -682,9 +1023,42 @@ def gen_rln(rng, tier):
             halfsets[0], halfsets[-1] = 1, 2
     elif hs_mode == "single":
         halfsets = [rng.choice([1, 2])] * n
-    pxsrc = rng.choice(["column", "arg"]) if ver < 40 else "arg"
-    return dict(kind="rln", ver=ver, px=f2b(px), pxsrc=pxsrc, optics=(ver >= 31 and rng.random() < 0.5), rows=rows, tomo_names=tn, sub_names=sn,
-                tomo_ids=tids, sub_ids=subs, halfsets=halfsets, cls=cl, angles=acls, style=rng.randint(0, 5))
+    pxsrc = rng.choice(["column", "column", "arg"]) if ver < 40 else "arg"
+    optics = (ver >= 31 and rng.random() < 0.5)
+    # item 1: the rlnPixelSize column is a per-row column
+    pxs = [px] * n
+    if pxsrc == "column":
+        k = rng.random()
+        if k < 0.55:
+            per_tomo = {t: _px(rng) for t in tomos}
+            pxs = [per_tomo[t] for t in tids]
+        elif k < 0.8:
+            pxs = [_px(rng) for _ in range(n)]
+        if n >= 2 and len(set(pxs)) == 1 and k < 0.8:
+            pxs[-1] = pxs[0] * 2.0
+    tomo_col = force.get("tomo_col", rng.random() >= 0.25)
+    with_optics = optics and ver >= 31
+    # version passed explicitly or sniffed from the columns (3.0 without the micrograph column cannot be told from the columns)
+    can_sniff = not (ver == 30 and not tomo_col)
+    ver_arg = "sniff" if (can_sniff and rng.random() < 0.4) else "explicit"
+    # pixel size argument omitted: irrelevant for 3.0, documented default 1.0 otherwise
+    omit_px = (pxsrc == "arg") and ((ver == 30 and rng.random() < 0.3) or (ver >= 31 and px == 1.0 and rng.random() < 0.6))
+    case = dict(kind="rln", ver=ver, px=f2b(px), pxs=[f2b(v) for v in pxs], pxsrc=pxsrc, optics=optics, rows=rows, tomo_names=tn, sub_names=sn,
+                tomo_ids=tids, sub_ids=subs, halfsets=halfsets, cls=cl, angles=acls, style=rng.randint(0, 5), tomo_col=tomo_col, ver_arg=ver_arg,
+                omit_px=omit_px, coord_int=coord_int, reuse=force.get("reuse", rng.random() < 0.35), colorder=None, uoe=None, sg=False)
+    if force.get("shuffle", rng.random() < 0.4):
+        k = len(rln_columns(case))
+        perm = list(range(k)); rng.shuffle(perm)
+        case["colorder"] = perm
+    if force.get("uoe", rng.random() < 0.4):
+        m = rng.randint(1, n)
+        perm = rng.sample(range(n), m)
+        keep = rng.random() < 0.25
+        case["uoe"] = dict(perm=perm, keep_all=keep, newcls=([rng.randint(0, 9) for _ in perm] if (not keep and rng.random() < 0.5) else None))
+    # relion2stopgap has no pixel-size argument: only where the file itself (or the default 1.0 / version 3.0) settles it
+    if (pxsrc == "column" or with_optics or ver == 30 or px == 1.0) and rng.random() < 0.3:
+        case["sg"] = True
+    return case
 
 
 def generate(rng, tier, n):
@@ -698,18 +1072,25 @@ def generate(rng, tier, n):
                 yield dict(kind="cc", ver=ver, px=f2b(2.5), tomo_fmt="" if ver == 40 else "/t/TS_$xxx.rec", sub_fmt="TS_$xxx/$yyyy" if ver == 40 else "/s/TS_$xxx_$yyyy_2.5A.mrc",
                            optics=(ver >= 31), parts=parts, ids=ids, angles="lattice", grid=True)
     for _ in range(n):
-        yield gen_cc(rng, tier) if rng.random() < 0.6 else gen_rln(rng, tier)
+        yield gen_cc(rng, tier) if rng.random() < 0.5 else gen_rln(rng, tier)
 
 
 def shrink(case):
     key = "parts" if case["kind"] == "cc" else "rows"
-    per_row = ["parts", "ids"] if case["kind"] == "cc" else ["rows", "tomo_names", "sub_names", "tomo_ids", "sub_ids", "cls"] + (["halfsets"] if case.get("halfsets") else [])
+    per_row = ["parts", "ids"] if case["kind"] == "cc" else ["rows", "tomo_names", "sub_names", "tomo_ids", "sub_ids", "cls"] + (["halfsets"] if case.get("halfsets") else []) \
+        + (["pxs"] if case.get("pxs") else [])
     n = len(case[key])
 
     def take(idx):
+        idx = list(idx)
         c = dict(case)
         for k in per_row:
             c[k] = [case[k][i] for i in idx]
+        if c.get("uoe"):
+            keepk = [k for k, j in enumerate(case["uoe"]["perm"]) if j in idx]
+            perm = [idx.index(case["uoe"]["perm"][k]) for k in keepk]
+            nc = case["uoe"].get("newcls")
+            c["uoe"] = dict(case["uoe"], perm=perm or [0], newcls=(([nc[k] for k in keepk] or [nc[0]]) if nc else None))
         return c
     if n > 1:
         yield take(range(n // 2))
@@ -718,56 +1099,145 @@ def shrink(case):
             yield take([i])
         if n > 2:
             yield take(range(2))
+            yield take(range(3))
     if case["kind"] == "cc":
         if case["tomo_fmt"] or case["sub_fmt"]:
             yield dict(case, tomo_fmt="", sub_fmt="")
         if case["optics"]:
-            yield dict(case, optics=False)
-        if b2f(case["px"]) != 2.0:
+            yield dict(case, optics=False, omit=[o for o in case.get("omit", []) if o != "write_optics"])
+        if case.get("omit"):
+            yield dict(case, omit=[])
+        for flag in ("share_df", "sg"):
+            if case.get(flag):
+                yield dict(case, **{flag: False})
+        if b2f(case["px"]) != 2.0 and "conv_pixel_size" not in case.get("omit", []):
             yield dict(case, px=f2b(2.0))
         simple = [[f2b(v) for v in (10.0 + i, 20.0, 30.0, 0.5, -0.25, 0.0, 10.0, 20.0, 30.0)] for i in range(n)]
         if case["parts"] != simple:
             yield dict(case, parts=simple)
             yield dict(case, parts=[p[:6] + s[6:] for p, s in zip(case["parts"], simple)])
             yield dict(case, parts=[s[:6] + p[6:] for p, s in zip(case["parts"], simple)])
+    else:
+        for flag, off in (("reuse", False), ("sg", False), ("uoe", None), ("colorder", None), ("coord_int", False), ("omit_px", False)):
+            if case.get(flag):
+                yield dict(case, **{flag: off})
+        if case.get("ver_arg") == "sniff":
+            yield dict(case, ver_arg="explicit")
+        if not case.get("tomo_col", True):
+            yield dict(case, tomo_col=True, colorder=None)
 
 
 # ------------------------------------------------------------------ implementation adapters
-def _i(v):
-    """identifier cell -> int when integral, else the text"""
-    try:
+NUMERIC_MOTL = ["x", "y", "z", "shift_x", "shift_y", "shift_z", "phi", "theta", "psi", "tomo_id", "subtomo_id", "geom3", "class"]
+
+
+def _isnum(v):
+    return isinstance(v, (int, float, np.integer, np.floating)) and not isinstance(v, bool)
+
+
+def _i(v, text=None, where=""):
+    """identifier cell: numeric -> int when integral (else repr of the float); text is RECORDED as text, never coerced (G3)"""
+    if _isnum(v):
         f = float(v)
         return int(f) if f == int(f) else repr(f)
+    if text is not None:
+        text.append([where, repr(v)[:60]])
+    return {"text": str(v)[:60]}
+
+
+def _f(v, text, where):
+    """numeric cell -> IEEE bits; a text cell is recorded and only then parsed (so that the remaining clauses can still be judged)"""
+    if _isnum(v):
+        return f2b(float(v))
+    text.append([where, repr(v)[:60]])
+    try:
+        return f2b(float(v))
     except Exception:
-        return str(v)
+        return f2b(float("nan"))
 
 
-def _export_obs(cols, spec, get, n, ver):
+def _export_obs(r, spec, ver):
+    """observation of an exported RELION DataFrame: values with their types (G3)"""
+    cols = [str(c) for c in r.columns]
     tname, sname, onames, _ = DOC_NAMES[ver]
-    rows = []
+    text, rows = [], []
+    n = len(r)
+    col = {c: r[c].tolist() for c in cols if c in set(["rlnCoordinateX", "rlnCoordinateY", "rlnCoordinateZ", "rlnAngleRot", "rlnAngleTilt", "rlnAnglePsi", tname, sname,
+                                                        "rlnRandomSubset", "rlnClassNumber", "rlnPixelSize"] + onames)}
     for i in range(n):
-        rows.append(dict(coord=[f2b(float(get(i, "rlnCoordinate" + c))) for c in "XYZ"],
-                         origin=[(f2b(float(get(i, o))) if o in cols else None) for o in onames],
-                         ang=[f2b(float(get(i, a))) for a in ("rlnAngleRot", "rlnAngleTilt", "rlnAnglePsi")],
-                         tomo=str(get(i, tname)) if tname in cols else None, sub=str(get(i, sname)) if sname in cols else None,
-                         halfset=_i(get(i, "rlnRandomSubset")) if "rlnRandomSubset" in cols else None,
-                         cls=_i(get(i, "rlnClassNumber")) if "rlnClassNumber" in cols else None,
-                         pixel=(f2b(float(get(i, "rlnPixelSize"))) if "rlnPixelSize" in cols else None)))
-    return dict(cols=list(cols), spec=spec, rows=rows)
+        rows.append(dict(coord=[_f(col["rlnCoordinate" + c][i], text, "rlnCoordinate" + c) for c in "XYZ"],
+                         origin=[(_f(col[o][i], text, o) if o in col else None) for o in onames],
+                         ang=[_f(col[a][i], text, a) for a in ("rlnAngleRot", "rlnAngleTilt", "rlnAnglePsi")],
+                         tomo=str(col[tname][i]) if tname in col else None, sub=str(col[sname][i]) if sname in col else None,
+                         halfset=_i(col["rlnRandomSubset"][i], text, "rlnRandomSubset") if "rlnRandomSubset" in col else None,
+                         cls=_i(col["rlnClassNumber"][i], text, "rlnClassNumber") if "rlnClassNumber" in col else None,
+                         pixel=(_f(col["rlnPixelSize"][i], text, "rlnPixelSize") if "rlnPixelSize" in col else None)))
+    return dict(cols=cols, spec=spec, rows=rows, text=text[:8], kinds={c: r[c].dtype.kind for c in cols})
+
+
+NUM_TOKEN = re.compile(r"[+-]?(\d+\.?\d*|\.\d+)([eE][+-]?\d+)?$|[+-]?(inf|nan)$", re.I)
+
+
+def _file_rows_obs(cols, spec, rows, ver):
+    """observation of a particle block read by the harness's own STAR reader (cells are tokens; a numeric column must hold number tokens)"""
+    tname, sname, onames, _ = DOC_NAMES[ver]
+    text, out = [], []
+
+    def num(i, c):
+        t = rows[i][cols.index(c)]
+        if not NUM_TOKEN.match(t):
+            text.append([c, t[:60]]); return f2b(float("nan"))
+        return f2b(float(t))
+
+    def ident(i, c):
+        t = rows[i][cols.index(c)]
+        if not NUM_TOKEN.match(t):
+            text.append([c, t[:60]]); return {"text": t[:60]}
+        f = float(t)
+        return int(f) if f == int(f) else repr(f)
+    for i in range(len(rows)):
+        out.append(dict(coord=[num(i, "rlnCoordinate" + c) for c in "XYZ"], origin=[(num(i, o) if o in cols else None) for o in onames],
+                        ang=[num(i, a) for a in ("rlnAngleRot", "rlnAngleTilt", "rlnAnglePsi")],
+                        tomo=rows[i][cols.index(tname)] if tname in cols else None, sub=rows[i][cols.index(sname)] if sname in cols else None,
+                        halfset=ident(i, "rlnRandomSubset") if "rlnRandomSubset" in cols else None,
+                        cls=ident(i, "rlnClassNumber") if "rlnClassNumber" in cols else None,
+                        pixel=(num(i, "rlnPixelSize") if "rlnPixelSize" in cols else None)))
+    return dict(cols=list(cols), spec=spec, rows=out, text=text[:8], kinds={})
 
 
 def _motl_obs(m):
     df = m.df
-    out = []
+    text, out = [], []
+    col = {c: df[c].tolist() for c in NUMERIC_MOTL}
     for i in range(len(df)):
-        r = df.iloc[i]
-        out.append(dict(xyz=[f2b(float(r[c])) for c in ("x", "y", "z")], shift=[f2b(float(r[c])) for c in ("shift_x", "shift_y", "shift_z")],
-                        ang=[f2b(float(r[c])) for c in ("phi", "theta", "psi")], tomo=_i(r["tomo_id"]), sub=_i(r["subtomo_id"]), geom3=_i(r["geom3"]), cls=_i(r["class"])))
+        out.append(dict(xyz=[_f(col[c][i], text, c) for c in ("x", "y", "z")], shift=[_f(col[c][i], text, c) for c in ("shift_x", "shift_y", "shift_z")],
+                        ang=[_f(col[c][i], text, c) for c in ("phi", "theta", "psi")], tomo=_i(col["tomo_id"][i], text, "tomo_id"),
+                        sub=_i(col["subtomo_id"][i], text, "subtomo_id"), geom3=_i(col["geom3"][i], text, "geom3"), cls=_i(col["class"][i], text, "class")))
     v = getattr(m, "version", None)
-    return dict(rows=out, version=(None if v is None else int(round(float(v) * 10))), cols=[str(c) for c in df.columns])
+    return dict(rows=out, version=(None if v is None else int(round(float(v) * 10))), cols=[str(c) for c in df.columns], text=text[:8],
+                kinds={c: df[c].dtype.kind for c in NUMERIC_MOTL})
+
+
+def _frame_diff(before, after):
+    """what a call did to a caller-owned DataFrame (G2): [] when it is untouched"""
+    out = []
+    if list(before.columns) != list(after.columns):
+        out.append(f"columns {list(before.columns)} -> {list(after.columns)}"[:300])
+        return out
+    if len(before) != len(after) or list(before.index) != list(after.index):
+        out.append(f"rows/index changed: {len(before)} -> {len(after)}")
+        return out
+    for c in before.columns:
+        if before[c].dtype != after[c].dtype:
+            out.append(f"dtype of {c}: {before[c].dtype} -> {after[c].dtype}")
+        elif not before[c].equals(after[c]):
+            k = next((i for i in range(len(before)) if not (before[c].iloc[i] == after[c].iloc[i] or (before[c].iloc[i] != before[c].iloc[i] and after[c].iloc[i] != after[c].iloc[i]))), 0)
+            out.append(f"column {c}, row {k}: {before[c].iloc[k]!r} -> {after[c].iloc[k]!r}")
+    return out[:6]
 
 
 def _attempt(out, key, fn):
+    """G4: an exception is attributed to cryoCAT only if its traceback passes through /cryocat/ (where != '')"""
     import traceback
     try:
         out[key] = fn()
@@ -776,13 +1246,13 @@ def _attempt(out, key, fn):
         for fr in reversed(traceback.extract_tb(e.__traceback__)):
             if "/cryocat/" in fr.filename:
                 where = f"{os.path.basename(fr.filename)}:{fr.lineno}"; break
-        out[key] = {"error": f"{type(e).__name__}: {str(e)[:200]}", "where": where}
+        msg = str(e)
+        out[key] = {"error": f"{type(e).__name__}: {msg if len(msg) <= 200 else msg[:120] + ' ... ' + msg[-70:]}", "where": where}
 
 
 def _file_export_obs(path, ver):
     blocks = read_star(path)
     specs = [b[0] for b in blocks]
-    want = DOC_NAMES[ver][3]
     cand = [b for b in blocks if b[0] != "data_optics"]
     if len(cand) != 1:
         return dict(error=f"expected one particle block, file holds {specs}", where="file")
@@ -790,12 +1260,33 @@ def _file_export_obs(path, ver):
     bad = [r for r in rows if len(r) != len(cols)]
     if bad:
         return dict(error=f"row with {len(bad[0])} cells for {len(cols)} columns", where="file")
-    o = _export_obs(cols, spec, lambda i, c: rows[i][cols.index(c)], len(rows), ver)
+    need = ["rlnCoordinateX", "rlnCoordinateY", "rlnCoordinateZ", "rlnAngleRot", "rlnAngleTilt", "rlnAnglePsi"]
+    if any(c not in cols for c in need):
+        return dict(cols=list(cols), spec=spec, rows=[], specs=specs, text=[], kinds={}, missing=[c for c in need if c not in cols])
+    o = _file_rows_obs(cols, spec, rows, ver)
     o["specs"] = specs
     opt = [b for b in blocks if b[0] == "data_optics"]
     if opt and "rlnImagePixelSize" in opt[0][1] and opt[0][2]:
         o["optics_px"] = f2b(float(opt[0][2][0][opt[0][1].index("rlnImagePixelSize")]))
     return o
+
+
+def rln_table(case):
+    """(cols, data) of the RELION table of an 'rln' case; data values are Python lists"""
+    n = len(case["rows"])
+    ver = case["ver"]
+    R = [[b2f(b) for b in r] for r in case["rows"]]
+    tname, sname, onames, _ = DOC_NAMES[ver]
+    cint = case.get("coord_int", False)
+    cv = (lambda v: int(v)) if cint else (lambda v: float(v))
+    data = {"rlnCoordinateX": [cv(r[0]) for r in R], "rlnCoordinateY": [cv(r[1]) for r in R], "rlnCoordinateZ": [cv(r[2]) for r in R],
+            "rlnAngleRot": [r[6] for r in R], "rlnAngleTilt": [r[7] for r in R], "rlnAnglePsi": [r[8] for r in R],
+            tname: list(case["tomo_names"]), sname: list(case["sub_names"]), onames[0]: [r[3] for r in R], onames[1]: [r[4] for r in R],
+            onames[2]: [r[5] for r in R], "rlnClassNumber": list(case["cls"]), "rlnOpticsGroup": [1] * n,
+            "rlnPixelSize": [b2f(b) for b in case.get("pxs", [case["px"]] * n)]}
+    if case["halfsets"] is not None:
+        data["rlnRandomSubset"] = list(case["halfsets"])
+    return rln_columns(case), data
 
 
 def run_impl(case):
@@ -808,68 +1299,156 @@ def run_impl(case):
     with tempfile.TemporaryDirectory(prefix="c03_") as td:
         if case["kind"] == "cc":
             n = len(case["parts"])
+            omit = set(case.get("omit", []))
             vals = np.zeros((n, 20))
             df = pd.DataFrame(vals, columns=MOTL_COLS)
             P = np.array([[b2f(b) for b in p] for p in case["parts"]], dtype=float).reshape(n, 9)
             for k, c in enumerate(["x", "y", "z", "shift_x", "shift_y", "shift_z", "phi", "theta", "psi"]):
                 df[c] = P[:, k]
+            if case.get("xyz_int"):
+                for c in ("x", "y", "z"):
+                    df[c] = df[c].astype("int64")
             df["tomo_id"] = [float(t[0]) for t in case["ids"]]
             df["subtomo_id"] = [float(t[1]) for t in case["ids"]]
             df["class"] = [float(t[2]) for t in case["ids"]]
             df["score"] = np.linspace(0.1, 0.9, n)
-            fm = dict(tomo_format=case["tomo_fmt"], subtomo_format=case["sub_fmt"])
+            pristine = df.copy(deep=True)
+            share = bool(case.get("share_df"))
+            inp = (lambda: df) if share else (lambda: df.copy())
+            mut = (lambda: _frame_diff(pristine, df)) if share else (lambda: [])
+            fm = {} if "formats" in omit else dict(tomo_format=case["tomo_fmt"], subtomo_format=case["sub_fmt"])
+            rk = dict(pixel_size=px)
+            if "version" not in omit:
+                rk["version"] = VERS[ver]
+            if "binning" not in omit:
+                rk["binning"] = 1.0
             state = {}
 
             def a():
-                m = cryomotl.RelionMotl(df.copy(), version=VERS[ver], pixel_size=px, binning=1.0)
+                m = cryomotl.RelionMotl(inp(), **rk)
                 r = m.create_relion_df(**fm)
                 state["r"] = r
-                return _export_obs([str(c) for c in r.columns], m.data_spec, lambda i, c: r[c].iloc[i], len(r), ver)
+                o = _export_obs(r, m.data_spec, ver); o["mut"] = mut()
+                return o
             _attempt(out, "A", a)
             path = os.path.join(td, "out.star")
 
             def b():
-                m = cryomotl.RelionMotl(df.copy(), version=VERS[ver], pixel_size=px, binning=1.0)
-                m.write_out(path, write_optics=case["optics"], **fm)
+                m = cryomotl.RelionMotl(inp(), **rk)
+                wk = dict(fm)
+                if not ("write_optics" in omit and case["optics"]):
+                    wk["write_optics"] = case["optics"]
+                m.write_out(path, **wk)
                 state["file"] = True
-                return _file_export_obs(path, ver)
+                o = _file_export_obs(path, ver); o["mut"] = mut()
+                return o
             _attempt(out, "B", b)
             if "r" in state:
-                _attempt(out, "C", lambda: _motl_obs(cryomotl.RelionMotl(state["r"].copy(), version=VERS[ver], pixel_size=px)))
+                ck = {}
+                if "c_version" not in omit:
+                    ck["version"] = VERS[ver]
+                if not ("c_pixel_size" in omit and ver < 40):
+                    ck["pixel_size"] = px
+                frame = state["r"]
+                fp = frame.copy(deep=True)
+
+                def c():
+                    o = _motl_obs(cryomotl.RelionMotl(frame, **ck))   # the exported frame itself is handed back: it must stay as it is
+                    o["mut"] = _frame_diff(fp, frame); o["sniffed"] = "version" not in ck
+                    return o
+                _attempt(out, "C", c)
             if "file" in state:
                 need_px = (ver == 40 and not case["optics"])
-                _attempt(out, "D", lambda: _motl_obs(cryomotl.RelionMotl(path, pixel_size=(px if need_px else None))))
+                _attempt(out, "D", lambda: _motl_obs(cryomotl.RelionMotl(path, **(dict(pixel_size=px) if need_px else {}))))
+            ek = dict(fm)
+            if "relion_version" not in omit:
+                ek["relion_version"] = VERS[ver]
+            if not ("conv_pixel_size" in omit and px == 1.0):
+                ek["pixel_size"] = px
+            if "conv_binning" not in omit:
+                ek["binning"] = 1.0
+            if not ("conv_write_optics" in omit and not case["optics"]):
+                ek["write_optics"] = case["optics"]
             p2 = os.path.join(td, "conv.star")
 
             def e():
-                cryomotl.emmotl2relion(df.copy(), p2, relion_version=VERS[ver], pixel_size=px, binning=1.0, write_optics=case["optics"], **fm)
-                em = cryomotl.relion2emmotl(p2, pixel_size=(px if (ver == 40 and not case["optics"]) else None))
-                return _motl_obs(em)
+                cryomotl.emmotl2relion(inp(), p2, **ek)
+                em = cryomotl.relion2emmotl(p2, **(dict(pixel_size=px) if (ver == 40 and not case["optics"]) else {}))
+                o = _motl_obs(em); o["mut"] = mut()
+                return o
             _attempt(out, "E", e)
+            if case.get("sg"):
+                p3 = os.path.join(td, "sg.star")
+
+                def g():
+                    cryomotl.stopgap2relion(inp(), p3, **ek)
+                    o = _file_export_obs(p3, ver); o["mut"] = mut()
+                    return o
+                _attempt(out, "G", g)
         else:
             n = len(case["rows"])
-            R = np.array([[b2f(b) for b in r] for r in case["rows"]], dtype=float).reshape(n, 9)
-            tname, sname, onames, _ = DOC_NAMES[ver]
-            cols, data = [], {}
-            cols = ["rlnCoordinateX", "rlnCoordinateY", "rlnCoordinateZ", "rlnAngleRot", "rlnAngleTilt", "rlnAnglePsi", tname, sname] + onames + ["rlnClassNumber"]
-            data = {"rlnCoordinateX": R[:, 0], "rlnCoordinateY": R[:, 1], "rlnCoordinateZ": R[:, 2], "rlnAngleRot": R[:, 6], "rlnAngleTilt": R[:, 7],
-                    "rlnAnglePsi": R[:, 8], tname: list(case["tomo_names"]), sname: list(case["sub_names"]), onames[0]: R[:, 3], onames[1]: R[:, 4],
-                    onames[2]: R[:, 5], "rlnClassNumber": list(case["cls"])}
-            if case["halfsets"] is not None:
-                cols.append("rlnRandomSubset"); data["rlnRandomSubset"] = list(case["halfsets"])
-            use_col = case["pxsrc"] == "column"
-            if use_col:
-                cols.insert(8, "rlnPixelSize"); data["rlnPixelSize"] = [px] * n
-            if ver >= 31:
-                cols.append("rlnOpticsGroup"); data["rlnOpticsGroup"] = [1] * n
+            cols, data = rln_table(case)
             rdf = pd.DataFrame({c: data[c] for c in cols})
-            _attempt(out, "M", lambda: _motl_obs(cryomotl.RelionMotl(rdf.copy(), version=VERS[ver], pixel_size=(None if use_col else px))))
+            pristine = rdf.copy(deep=True)
+            use_col = case["pxsrc"] == "column"
+            reuse = bool(case.get("reuse"))
+            frame = rdf if reuse else rdf.copy()
+            mk = {}
+            if case.get("ver_arg", "explicit") == "explicit":
+                mk["version"] = VERS[ver]
+            if not use_col and not case.get("omit_px"):
+                mk["pixel_size"] = px
+            state = {}
+
+            def m_():
+                m = cryomotl.RelionMotl(frame, **mk)
+                state["m"] = m
+                o = _motl_obs(m); o["mut"] = _frame_diff(pristine, frame); o["sniffed"] = "version" not in mk
+                return o
+            _attempt(out, "M", m_)
+            if reuse:   # G2: the same caller-owned frame, imported a second time (the other way of giving the version where possible)
+                mk2 = dict(mk)
+                can_sniff = not (ver == 30 and not case.get("tomo_col", True))
+                if "version" in mk2 and can_sniff:
+                    del mk2["version"]
+                else:
+                    mk2["version"] = VERS[ver]
+
+                def m2():
+                    o = _motl_obs(cryomotl.RelionMotl(frame, **mk2)); o["mut"] = _frame_diff(pristine, frame); o["sniffed"] = "version" not in mk2
+                    return o
+                _attempt(out, "M2", m2)
+            if case.get("uoe") and "m" in state:
+                u = case["uoe"]
+
+                def u_():
+                    m = state["m"]
+                    m.df = m.df.iloc[list(u["perm"])].reset_index(drop=True)   # the user drops / reorders particles
+                    if u.get("newcls"):
+                        m.df["class"] = [float(c) for c in u["newcls"]]            # ... and re-classifies them
+                    uk = dict(use_original_entries=True)
+                    if u.get("keep_all"):
+                        uk["keep_all_entries"] = True
+                    if ver >= 40:
+                        uk["binning"] = 1.0   # RelionMotl's default binning=None cannot be multiplied (binning is outside the quantifier: always 1)
+                    r = m.create_relion_df(**uk)
+                    return _export_obs(r, m.data_spec, ver)
+                _attempt(out, "U", u_)
             path = os.path.join(td, "in.star")
-            rows = [[data[c][i] if isinstance(data[c], list) else float(data[c][i]) for c in cols] for i in range(n)]
+            rows = [[data[c][i] for c in cols] for i in range(n)]
             with_optics = case["optics"] and ver >= 31
             write_relion_star(path, ver, cols, rows, optics_px=(px if with_optics else None), style=case.get("style", 0))
-            arg_px = None if (use_col or with_optics) else px
-            _attempt(out, "F", lambda: _motl_obs(cryomotl.RelionMotl(path, pixel_size=arg_px)))
+            fk = {} if (use_col or with_optics or case.get("omit_px")) else dict(pixel_size=px)
+            _attempt(out, "F", lambda: _motl_obs(cryomotl.RelionMotl(path, **fk)))
+            if case.get("sg"):
+                def h_():
+                    sg = cryomotl.relion2stopgap(path)
+                    o = _motl_obs(sg); o["version"] = None
+                    return o
+                _attempt(out, "H", h_)
+            if reuse:   # G2: the same path, legitimately rewritten (rows reversed), read again
+                write_relion_star(path, ver, cols, rows[::-1], optics_px=(px if with_optics else None), style=case.get("style", 0) + 1)
+                _attempt(out, "F2", lambda: _motl_obs(cryomotl.RelionMotl(path, **fk)))
     return out
 
 
@@ -883,11 +1462,15 @@ def _export_req(case, ex):
                 out=[r["ang"] for r in ex["rows"]])
 
 
-def _import_req(ver, rows9, px_bits, tn, sn, halfsets, out_ang):
-    q = dict(op="import", ver=ver, rows=rows9, px=[px_bits] * len(rows9), tomo_names=tn, sub_names=sn, out=out_ang)
+def _import_req(ver, rows9, px_bits, tn, sn, halfsets, cls, cols, out_ang):
+    q = dict(op="import", ver=ver, rows=rows9, px=list(px_bits), tomo_names=tn, sub_names=sn, cls=cls, cols=cols, out=out_ang)
     if halfsets is not None:
         q["halfsets"] = halfsets
     return q
+
+
+def _finite_bits(rows, keys):
+    return all(all((b is not None and math.isfinite(b2f(b))) for k in keys for b in r[k]) for r in rows)
 
 
 def _plan(case, obs):
@@ -897,23 +1480,33 @@ def _plan(case, obs):
         return plan
     if case["kind"] == "cc":
         n = len(case["parts"])
-        for tag in ("A", "B"):
-            if _ok(obs.get(tag)) and len(obs[tag]["rows"]) == n:
+        for tag in ("A", "B", "G"):
+            if _ok(obs.get(tag)) and len(obs[tag]["rows"]) == n and _finite_bits(obs[tag]["rows"], ["ang"]):
                 plan.append((tag, _export_req(case, obs[tag])))
         for tag, src in (("C", "A"), ("D", "B")):
             if _ok(obs.get(tag)) and _ok(obs.get(src)) and len(obs[tag]["rows"]) == len(obs[src]["rows"]) == n:
                 ex = obs[src]["rows"]
-                if any(r["tomo"] is None or r["sub"] is None or None in r["origin"] for r in ex):
+                if any(r["tomo"] is None or r["sub"] is None or None in r["origin"] or not isinstance(r["cls"], int) for r in ex):
+                    continue
+                if not (_finite_bits(ex, ["coord", "origin", "ang"]) and _finite_bits(obs[tag]["rows"], ["ang"])):
                     continue
                 hs = [r["halfset"] for r in ex]
-                plan.append((tag, _import_req(case["ver"], [r["coord"] + r["origin"] + r["ang"] for r in ex], case["px"], [r["tomo"] for r in ex],
-                                              [r["sub"] for r in ex], hs if all(isinstance(h, int) for h in hs) else None, [r["ang"] for r in obs[tag]["rows"]])))
+                plan.append((tag, _import_req(case["ver"], [r["coord"] + r["origin"] + r["ang"] for r in ex], [case["px"]] * n, [r["tomo"] for r in ex],
+                                              [r["sub"] for r in ex], hs if all(isinstance(h, int) for h in hs) else None, [r["cls"] for r in ex],
+                                              obs[src]["cols"], [r["ang"] for r in obs[tag]["rows"]])))
     else:
         n = len(case["rows"])
-        for tag in ("M", "F"):
-            if _ok(obs.get(tag)) and len(obs[tag]["rows"]) == n:
-                plan.append((tag, _import_req(case["ver"], case["rows"], case["px"], case["tomo_names"], case["sub_names"], case["halfsets"],
-                                              [r["ang"] for r in obs[tag]["rows"]])))
+        cols = rln_columns(case)
+        tn = list(case["tomo_names"]) if case.get("tomo_col", True) else [None] * n
+        pxs = case.get("pxs", [case["px"]] * n)
+        if case["pxsrc"] == "arg" and case.get("omit_px"):
+            pxs = [f2b(1.0)] * n      # documented default of set_pixel_size (irrelevant for 3.0)
+        for tag in ("M", "M2", "F", "H", "F2"):
+            if _ok(obs.get(tag)) and len(obs[tag]["rows"]) == n and _finite_bits(obs[tag]["rows"], ["ang"]):
+                rev = tag == "F2"
+                R = lambda l: (list(l)[::-1] if rev else list(l))
+                plan.append((tag, _import_req(case["ver"], R(case["rows"]), R(pxs), R(tn), R(case["sub_names"]), (R(case["halfsets"]) if case["halfsets"] is not None else None),
+                                              R(case["cls"]), cols, [r["ang"] for r in obs[tag]["rows"]])))
     return plan
 
 
@@ -922,6 +1515,9 @@ def requests(case, obs):
 
 
 # ------------------------------------------------------------------ judge
+# kind discipline (G6): `spec` = a clause of the statement fails on the real output, decided from the case's own numbers by the harness's independent
+# evaluation (own rotation matrices, own STAR reader, own name parser) - never from the model and never from another result of the implementation;
+# every comparison against the Lean model is `corr`.
 I3 = np.eye(3)
 STATS = {}
 
@@ -952,6 +1548,14 @@ def _close(a_bits, b, tol):
     return a == b if tol == 0 else abs(a - b) <= tol
 
 
+def _common(tag, o, S):
+    """clauses every observation is judged by: caller-owned inputs untouched (G2), numeric fields numeric (G3)"""
+    if o.get("mut"):
+        S("caller-input-modified", f"the DataFrame handed to the call was changed in place: {o['mut']}")
+    if o.get("text"):
+        S("numeric-field-is-text", f"numeric field(s) came back as text: {o['text']}")
+
+
 def _judge_export(tag, case, ex, resp, out, dev):
     ver = case["ver"]
     mem = tag == "A"
@@ -959,6 +1563,7 @@ def _judge_export(tag, case, ex, resp, out, dev):
     tname, sname, onames, spec = DOC_NAMES[ver]
     S = lambda clause, detail: out.append(dict(kind="spec", clause=clause, detail=f"[{tag}] {detail}"))
     C = lambda clause, detail: out.append(dict(kind="corr", clause=clause, detail=f"[{tag}] {detail}"))
+    _common(tag, ex, S)
     missing = [c for c in ["rlnCoordinateX", "rlnCoordinateY", "rlnCoordinateZ", "rlnAngleRot", "rlnAngleTilt", "rlnAnglePsi", tname, sname, "rlnClassNumber", "rlnRandomSubset"] + onames
                if c not in ex["cols"]]
     if missing:
@@ -1006,22 +1611,33 @@ def _judge_export(tag, case, ex, resp, out, dev):
             S("export-halfset", f"particle {i}: subtomo_id {sub} exported with rlnRandomSubset {r['halfset']}")
         if r["cls"] != cls:
             S("export-class", f"particle {i}: class {cls} exported as {r['cls']}")
-        if ver < 40 and r.get("pixel") is not None and abs(b2f(r["pixel"]) - b2f(case["px"])) > 1e-6:
+        if ver < 40 and r.get("pixel") is not None and not abs(b2f(r["pixel"]) - b2f(case["px"])) <= 1e-6:
             S("export-pixel-size", f"particle {i}: rlnPixelSize {b2f(r['pixel'])} != {b2f(case['px'])}")
         if mrows is None:
             continue
         m = mrows[i]
         if any(not _close(r["coord"][k], b2f(m["coord"][k]), ptol) for k in range(3)) or any(b2f(m["origin"][k]) != b2f(r["origin"][k]) for k in range(3)):
             C("export-position-vs-model", f"particle {i}: impl {[b2f(b) for b in r['coord']]} model {[b2f(b) for b in m['coord']]}")
-        d1, d2, d3 = _dev(_m(m["expect"]), Pm.T), _dev(_m(m["rel"]), E), _dev(_m(m["post"]), _m(m["fed"]))
-        dev["model_vs_numpy"] = max(dev.get("model_vs_numpy", 0.0), d1, d2)
+        if m.get("post") is None or m.get("own_post") is None:
+            C("model-rejects", f"particle {i}: the model cannot rebuild the Euler matrices (post={m.get('post') is not None}, own_post={m.get('own_post') is not None})")
+            continue
+        d1, d3, d4 = _dev(_m(m["expect"]), Pm.T), _dev(_m(m["post"]), _m(m["fed"])), _dev(_m(m["own_post"]), _m(m["fed"]))
+        d2 = _dev(_m(m["rel"]), E)            # the model's own exported rotation (own extractor) against the implementation's
+        d5 = _dev(_m(m["rel"]), _m(m["expect"]))  # the model against its theorem (export_is_transpose)
+        dev["model_vs_numpy"] = max(dev.get("model_vs_numpy", 0.0), d1)
+        dev["model_rotation_vs_impl"] = max(dev.get("model_rotation_vs_impl", 0.0), d2)
         dev["scipy_post"] = max(dev.get("scipy_post", 0.0), d3)
-        if d1 > TOL_MODEL or d2 > TOL_MODEL:
-            C("export-matrix-vs-model", f"particle {i}: model/harness matrices differ by {max(d1, d2):.3g}")
+        dev["own_extractor_post"] = max(dev.get("own_extractor_post", 0.0), d4)
+        if d1 > TOL_MODEL:
+            C("export-matrix-vs-model", f"particle {i}: model/harness matrices of the input angles differ by {d1:.3g}")
+        if d4 > TOL_POST:
+            C("own-extractor-postcondition", f"particle {i}: the driver's extractor does not reproduce the matrix it was given (|diff|={d4:.3g})")
+        elif d5 > TOL_POST:
+            C("model-vs-theorem", f"particle {i}: model output is not the transpose although the extractor met its post-condition (|diff|={d5:.3g})")
         if d3 > (TOL_POST if mem else TOL_FILE):
             C("scipy-postcondition", f"particle {i}: as_euler answer does not reproduce the matrix handed to scipy (|diff|={d3:.3g})")
-        if _dev(_m(m["rel"]), _m(m["expect"])) > rtol and d <= rtol:
-            C("export-rotation-vs-model", f"particle {i}: model predicts a different rotation")
+        if d2 > max(rtol, TOL_POST):
+            C("export-rotation-vs-model", f"particle {i}: the model exports a different rotation than the implementation (|diff|={d2:.3g})")
         if m["tomo_name"] != r["tomo"] or m["sub_name"] != r["sub"]:
             C("export-names-vs-model", f"particle {i}: impl ({r['tomo']!r},{r['sub']!r}) model ({m['tomo_name']!r},{m['sub_name']!r})")
         if m["halfset"] != r["halfset"] or m["cls"] != r["cls"]:
@@ -1029,9 +1645,10 @@ def _judge_export(tag, case, ex, resp, out, dev):
 
 
 def _judge_import(tag, case, im, resp, truth, out, dev):
-    """truth: dict(pos=[[3]], xyz=[[3]]|None, shift=[[3]]|None, rot=[3x3], relin=[3x3]|None, tomo, geom3, cls, halfsets|None, ptol, rtol)"""
+    """truth: dict(pos=[[3]], xyz=[[3]]|None, shift=[[3]]|None, rot=[3x3], relin=[3x3]|None, tomo, geom3, cls, halfsets|None, ptol, rtol, version|None)"""
     S = lambda clause, detail: out.append(dict(kind="spec", clause=clause, detail=f"[{tag}] {detail}"))
     C = lambda clause, detail: out.append(dict(kind="corr", clause=clause, detail=f"[{tag}] {detail}"))
+    _common(tag, im, S)
     n = len(truth["pos"])
     rows = im["rows"]
     if len(rows) != n:
@@ -1041,10 +1658,13 @@ def _judge_import(tag, case, im, resp, truth, out, dev):
     if resp is not None and mrows is None:
         C("model-rejects", str(resp)[:200])
     if truth.get("version") is not None and im.get("version") != truth["version"]:
-        S("import-version-detected", f"file of RELION {truth['version']/10} read as version {im.get('version')}")
+        S("import-version-detected", f"RELION {truth['version']/10} data ({'columns sniffed' if im.get('sniffed') else 'file'}) read as version {im.get('version')}")
+    if mrows is not None and im.get("sniffed") and resp.get("sniff") != im.get("version"):
+        C("sniff-vs-model", f"set_version detected {im.get('version')}, the model's rules give {resp.get('sniff')}")
     subs = [r["sub"] for r in rows]
     if len(set(map(str, subs))) != n:
-        S("import-subtomo-unique", f"subtomo_id not unique after import: {subs[:12]}")
+        # not demanded by the statement (it asks for the number to survive in geom3 / names): a disagreement with the model's Nodup theorem only
+        C("import-subtomo-unique", f"subtomo_id not unique after import: {subs[:12]}")
     for i in range(n):
         r = rows[i]
         xyz, sh, a = [b2f(b) for b in r["xyz"]], [b2f(b) for b in r["shift"]], [b2f(b) for b in r["ang"]]
@@ -1083,41 +1703,97 @@ def _judge_import(tag, case, im, resp, truth, out, dev):
         if any(not _close(m["xyz"][k], xyz[k], mt) for k in range(3)) or any(not _close(m["shift"][k], sh[k], mt) for k in range(3)):
             if not (truth["xyz"] is None and ptol > 0):  # file round trips: model ran on the file's cells, same tolerance applies
                 C("import-position-vs-model", f"particle {i}: impl xyz {xyz} shift {sh}; model {[b2f(b) for b in m['xyz']]} {[b2f(b) for b in m['shift']]}")
-        d2, d3 = _dev(_m(m["rot"]), Pm), _dev(_m(m["post"]), _m(m["fed"]))
-        dev["model_vs_numpy"] = max(dev.get("model_vs_numpy", 0.0), d2)
+        if m.get("post") is None or m.get("own_post") is None:
+            C("model-rejects", f"particle {i}: the model cannot rebuild the Euler matrices")
+            continue
+        d2, d3, d4 = _dev(_m(m["rot"]), Pm), _dev(_m(m["post"]), _m(m["fed"])), _dev(_m(m["own_post"]), _m(m["fed"]))
+        d5 = _dev(_m(m["rot"]), _m(m["expect"]))
+        dev["model_rotation_vs_impl"] = max(dev.get("model_rotation_vs_impl", 0.0), d2)
         dev["scipy_post"] = max(dev.get("scipy_post", 0.0), d3)
-        if d2 > TOL_MODEL:
-            C("import-matrix-vs-model", f"particle {i}: model/harness matrices differ by {d2:.3g}")
+        dev["own_extractor_post"] = max(dev.get("own_extractor_post", 0.0), d4)
+        if d4 > TOL_POST:
+            C("own-extractor-postcondition", f"particle {i}: the driver's extractor does not reproduce the matrix it was given (|diff|={d4:.3g})")
+        elif d5 > TOL_POST:
+            C("model-vs-theorem", f"particle {i}: model output is not the transpose although the extractor met its post-condition (|diff|={d5:.3g})")
         if d3 > TOL_POST:
             C("scipy-postcondition", f"particle {i}: as_euler answer does not reproduce the matrix handed to scipy (|diff|={d3:.3g})")
-        if _dev(_m(m["rot"]), _m(m["expect"])) > rtol and d <= rtol:
-            C("import-rotation-vs-model", f"particle {i}: model predicts a different rotation")
+        if d2 > max(rtol, TOL_POST) and truth["relin"] is not None:
+            C("import-rotation-vs-model", f"particle {i}: the model imports a different rotation than the implementation (|diff|={d2:.3g})")
     if mrows is not None:
         if resp["tomo"] != [r["tomo"] for r in rows]:
-            C("import-tomo-vs-model", f"impl {[r['tomo'] for r in rows][:10]} model {resp['tomo'][:10]}")
+            C("import-tomo-vs-model", f"impl {[r['tomo'] for r in rows][:10]} model {(resp['tomo'] or [])[:10]}")
         if resp["geom3"] != [r["geom3"] for r in rows]:
-            C("import-geom3-vs-model", f"impl {[r['geom3'] for r in rows][:10]} model {resp['geom3'][:10]}")
+            C("import-geom3-vs-model", f"impl {[r['geom3'] for r in rows][:10]} model {(resp['geom3'] or [])[:10]}")
         if resp["subtomo"] != subs:
             C("import-subtomo-vs-model", f"impl {subs[:10]} model {(resp['subtomo'] or [])[:10]}")
+        if resp["cls"] != [r["cls"] for r in rows]:
+            C("import-class-vs-model", f"impl {[r['cls'] for r in rows][:10]} model {(resp['cls'] or [])[:10]}")
+
+
+def _judge_original_entries(tag, case, ex, truth, out, dev):
+    """import -> the user drops / reorders particles -> create_relion_df(use_original_entries=True[, keep_all_entries=True]): output row i is the particle
+    perm[i] of the RELION input; everything is judged against the case's own input rows (independent of the model and of the imported table)"""
+    S = lambda clause, detail: out.append(dict(kind="spec", clause=clause, detail=f"[{tag}] {detail}"))
+    _common(tag, ex, S)
+    ver = case["ver"]
+    u = case["uoe"]
+    perm, keep = list(u["perm"]), bool(u.get("keep_all"))
+    tname, sname, onames, _ = DOC_NAMES[ver]
+    need = ["rlnCoordinateX", "rlnCoordinateY", "rlnCoordinateZ", "rlnAngleRot", "rlnAngleTilt", "rlnAnglePsi", sname, "rlnClassNumber"] + onames \
+        + ([tname] if case.get("tomo_col", True) else []) + (["rlnRandomSubset"] if case["halfsets"] is not None else [])
+    missing = [c for c in need if c not in ex["cols"]]
+    if missing:
+        S("original-entries-columns", f"columns {missing} of the original table missing from {ex['cols']}"); return
+    if len(ex["rows"]) != len(perm):
+        S("original-entries-row-count", f"{len(ex['rows'])} rows for {len(perm)} kept particles"); return
+    for i, j in enumerate(perm):
+        r = ex["rows"][i]
+        if _name_number(r["sub"], "x", ver, "sub") != truth["geom3"][j] or (case.get("tomo_col", True) and _name_number(r["tomo"], "x", ver, "tomo") != truth["tomo"][j]):
+            S("original-entries-row-identity", f"row {i} is particle {j} (tomogram {truth['tomo'][j]}, subtomogram {truth['geom3'][j]}) but carries names ({r['tomo']!r}, {r['sub']!r})")
+        want_cls = u["newcls"][i] if u.get("newcls") else truth["cls"][j]
+        if r["cls"] != want_cls:
+            S("export-class", f"row {i} (particle {j}): class {want_cls} exported as {r['cls']}")
+        if truth["halfsets"] is not None and r["halfset"] != truth["halfsets"][j]:
+            S("export-halfset", f"row {i} (particle {j}): half-set {truth['halfsets'][j]} exported as {r['halfset']}")
+        a = [b2f(b) for b in r["ang"]]
+        d = _dev(mat_relion(*a), truth["relin"][j])
+        dev["original_entries_rotation"] = max(dev.get("original_entries_rotation", 0.0), d)
+        if not d <= 1e-8:
+            S("export-rotation-inverse", f"row {i} (particle {j}): exported (rot,tilt,psi)={a} is not the rotation the particle was imported with (|diff|={d:.3g})")
+        if any(b2f(o) != 0.0 for o in r["origin"]):
+            S("export-origin-zero", f"row {i} (particle {j}): origin {[b2f(o) for o in r['origin']]}")
+        zero_origin = all(v == 0.0 for v in truth["origin"][j])
+        if not keep or zero_origin:   # keep_all_entries documents "coordinates as loaded": the position is only claimed where that IS the complete position
+            c = [b2f(b) for b in r["coord"]]
+            if any(not abs(c[k] - truth["pos"][j][k]) <= 1e-9 for k in range(3)):
+                S("export-coordinate", f"row {i} (particle {j}): rlnCoordinate {c}, complete position x+shift = coordinate - origin{'/pixel' if ver >= 31 else ''} = {truth['pos'][j]}")
+
+
+def _errors(case, obs, tags, out):
+    for tag in tags:
+        o = obs.get(tag)
+        if o is None or _ok(o):
+            continue
+        if o.get("where"):
+            out.append(dict(kind="spec", clause="raises:" + tag, detail=f"[{tag}] {o['error']} @{o['where']}"))
+        else:  # G4: no frame of the traceback lies inside /cryocat/
+            out.append(dict(kind="corr", clause="harness-or-library-raised", detail=f"[{tag}] {o['error']} (no cryocat frame in the traceback)"))
 
 
 def judge(case, obs, resps):
     out, dev = [], {}
     if "error" in obs:
-        return [dict(kind="spec", clause="raises", detail=obs["error"] + " @" + obs.get("where", ""))]
+        if obs.get("where"):
+            return [dict(kind="spec", clause="raises", detail=obs["error"] + " @" + obs["where"])]
+        return [dict(kind="corr", clause="harness-or-library-raised", detail=obs["error"] + " (no cryocat frame in the traceback)")]
     plan = _plan(case, obs)
     rmap = {tag: resps[k] for k, (tag, _) in enumerate(plan)} if len(resps) == len(plan) else {}
     ver, px = case["ver"], b2f(case["px"])
-    tags = ("A", "B", "C", "D", "E") if case["kind"] == "cc" else ("M", "F")
-    for tag in tags:
-        o = obs.get(tag)
-        if o is None:
-            continue
-        if not _ok(o):
-            out.append(dict(kind="spec", clause="raises:" + tag, detail=f"[{tag}] {o['error']} @{o.get('where', '')}"))
+    tags = ("A", "B", "C", "D", "E", "G") if case["kind"] == "cc" else ("M", "M2", "U", "F", "H", "F2")
+    _errors(case, obs, tags, out)
     if case["kind"] == "cc":
         P = [[b2f(b) for b in p] for p in case["parts"]]
-        for tag in ("A", "B"):
+        for tag in ("A", "B", "G"):
             if _ok(obs.get(tag)):
                 _judge_export(tag, case, obs[tag], rmap.get(tag), out, dev)
         hs = [_halfset(t[1]) for t in case["ids"]]
@@ -1125,16 +1801,26 @@ def judge(case, obs, resps):
                     tomo=[t[0] for t in case["ids"]], geom3=[t[1] for t in case["ids"]], cls=[t[2] for t in case["ids"]], halfsets=hs)
         for tag, ptol, rtol in (("C", 0, TOL_MEM), ("D", POS_TOL_FILE, TOL_FILE), ("E", POS_TOL_FILE, TOL_FILE)):
             if _ok(obs.get(tag)):
-                _judge_import(tag, case, obs[tag], rmap.get(tag), dict(base, ptol=ptol, rtol=rtol, version=(ver if tag == "D" else None)), out, dev)
+                want_ver = ver if (tag == "D" or (tag == "C" and obs[tag].get("sniffed"))) else None
+                _judge_import(tag, case, obs[tag], rmap.get(tag), dict(base, ptol=ptol, rtol=rtol, version=want_ver), out, dev)
     else:
         R = [[b2f(b) for b in r] for r in case["rows"]]
+        n = len(R)
         ang = ver >= 31
-        shift = [[((-r[3 + k]) / px if ang else -r[3 + k]) for k in range(3)] for r in R]
-        truth = dict(pos=[[r[k] + s[k] for k in range(3)] for r, s in zip(R, shift)], xyz=[r[:3] for r in R], shift=shift, rot=None,
-                     relin=[mat_relion(r[6], r[7], r[8]) for r in R], tomo=case["tomo_ids"], geom3=case["sub_ids"], cls=case["cls"], halfsets=case["halfsets"])
-        for tag, ptol in (("M", 0), ("F", 1e-9)):
+        pxs = [b2f(b) for b in case.get("pxs", [case["px"]] * n)]
+        if case["pxsrc"] == "arg" and case.get("omit_px"):
+            pxs = [1.0] * n
+        shift = [[((-r[3 + k]) / pxs[i] if ang else -r[3 + k]) for k in range(3)] for i, r in enumerate(R)]
+        truth = dict(pos=[[r[k] + s[k] for k in range(3)] for r, s in zip(R, shift)], xyz=[r[:3] for r in R], shift=shift, rot=None, origin=[r[3:6] for r in R],
+                     relin=[mat_relion(r[6], r[7], r[8]) for r in R], tomo=list(case["tomo_ids"]), geom3=list(case["sub_ids"]), cls=list(case["cls"]), halfsets=case["halfsets"])
+        rev = {k: (v[::-1] if isinstance(v, list) else v) for k, v in truth.items()}
+        for tag, ptol in (("M", 0), ("M2", 0), ("F", 1e-9), ("H", 1e-9), ("F2", 1e-9)):
             if _ok(obs.get(tag)):
-                _judge_import(tag, case, obs[tag], rmap.get(tag), dict(truth, ptol=ptol, rtol=1e-8, version=(ver if tag == "F" else None)), out, dev)
+                o = obs[tag]
+                want_ver = ver if (tag in ("F", "F2") or (tag in ("M", "M2") and o.get("sniffed"))) else None
+                _judge_import(tag, case, o, rmap.get(tag), dict(rev if tag == "F2" else truth, ptol=ptol, rtol=1e-8, version=want_ver), out, dev)
+        if case.get("uoe") and _ok(obs.get("U")):
+            _judge_original_entries("U", case, obs["U"], truth, out, dev)
     STATS[id(case)] = dev
     # de-duplicate by clause, keep the first detail
     seen, uniq = set(), []
@@ -1142,6 +1828,17 @@ def judge(case, obs, resps):
         if (f["kind"], f["clause"]) not in seen:
             seen.add((f["kind"], f["clause"])); uniq.append(f)
     return uniq
+
+
+def classify(case, obs, finding):
+    """C03-K1: `create_relion_df(use_original_entries=True)` on a table whose rlnCoordinate columns were loaded as int64 (whole-number coordinates) raises in
+    `relion_df.loc[:, [rlnCoordinateX..Z]] = self.get_coordinates()` (pandas 3 refuses the lossy float -> int64 assignment) as soon as a kept particle has a
+    non-integral complete position. Exactly that class, nothing else."""
+    if finding.get("clause") == "raises:U" and case.get("kind") == "rln" and case.get("coord_int") and case.get("uoe") and not case["uoe"].get("keep_all"):
+        o = obs.get("U") if isinstance(obs, dict) else None
+        if isinstance(o, dict) and "Invalid value" in o.get("error", "") and "int64" in o.get("error", "") and o.get("where", "").startswith("cryomotl.py"):
+            return "C03-K1"
+    return None
 
 
 def nontrivial(case, obs):
@@ -1162,16 +1859,29 @@ def stats(case, obs, resps):
     n = len(rows)
     d = {"kind": case["kind"], "version": case["ver"] / 10, "N": "1" if n == 1 else ("2-25" if n <= 25 else ("26-80" if n <= 80 else "81-300")),
          "angles": case.get("angles", "?"), "optics": str(case.get("optics")),
-         "paths_ok": [t for t in ("A", "B", "C", "D", "E", "M", "F") if _ok(obs.get(t))] if "error" not in obs else [],
+         "paths_ok": [t for t in ("A", "B", "C", "D", "E", "G", "M", "M2", "U", "F", "H", "F2") if _ok(obs.get(t))] if "error" not in obs else [],
          "gimbal_particles": "yes" if any((b2f(r[7]) % 180.0) == 0.0 for r in rows) else "no"}
     if case["kind"] == "cc":
         d["formats"] = ("tomo:" + ("plain" if not case["tomo_fmt"] else "fmt")) + " sub:" + ("plain" if not case["sub_fmt"] else "fmt")
         subs = [t[1] for t in case["ids"]]
         d["halfsets"] = "both" if len(set(s % 2 for s in subs)) == 2 else "single"
         d["sub_ids"] = "unique" if len(set(subs)) == n else "repeated"
+        d["omitted_keywords"] = list(case.get("omit", [])) or ["none"]
+        d["xyz_dtype"] = "int64" if case.get("xyz_int") else "float64"
+        d["same_frame_for_every_call"] = str(bool(case.get("share_df")))
+        d["version_sniffed_on_reimport"] = str(bool(_ok(obs.get("C")) and obs["C"].get("sniffed")))
     else:
         d["halfsets"] = "none" if case["halfsets"] is None else ("both" if len(set(case["halfsets"])) == 2 else "single")
-        d["pixel_source"] = "optics" if (case["optics"] and case["ver"] >= 31) else case["pxsrc"]
+        d["pixel_source"] = ("column" if case["pxsrc"] == "column" else ("default-1.0/unused" if case.get("omit_px") else ("optics" if (case["optics"] and case["ver"] >= 31) else "arg")))
+        d["pixel_per_row"] = "non-uniform" if len(set(case.get("pxs", []))) > 1 else "uniform"
+        d["tomo_column"] = "present" if case.get("tomo_col", True) else "absent(fallback)"
+        d["column_order"] = "shuffled" if case.get("colorder") else "canonical"
+        d["version_given"] = case.get("ver_arg", "explicit")
+        d["coordinate_dtype"] = "int64" if case.get("coord_int") else "float64"
+        d["same_frame_twice+same_path_rewritten"] = str(bool(case.get("reuse")))
+        d["use_original_entries"] = "no" if not case.get("uoe") else ("keep_all" if case["uoe"].get("keep_all") else "yes")
+        if _ok(obs.get("M")):
+            d["motl_dtype_kinds"] = "".join(sorted(set(obs["M"].get("kinds", {}).values())))
         d["sub_ids"] = "unique" if len(set(case["sub_ids"])) == n else "repeated"
     try:
         if id(case) not in STATS:
@@ -1185,7 +1895,7 @@ def stats(case, obs, resps):
 
 def sample_view(case):
     rows = case["parts"] if case["kind"] == "cc" else case["rows"]
-    v = {k: case[k] for k in case if k not in ("parts", "rows", "ids", "tomo_names", "sub_names", "tomo_ids", "sub_ids", "cls", "halfsets")}
+    v = {k: case[k] for k in case if k not in ("parts", "rows", "ids", "tomo_names", "sub_names", "tomo_ids", "sub_ids", "cls", "halfsets", "pxs")}
     v["px"] = b2f(case["px"]); v["n"] = len(rows); v["first_row"] = [b2f(b) for b in rows[0]]
     if case["kind"] == "cc":
         v["first_ids"] = case["ids"][0]
@@ -1219,12 +1929,18 @@ def probes(rng):
 
 
 LEVEL_TEXT = ("Lean 4 theorems about an executable model of RelionMotl's conversion (export_is_transpose/export_is_inverse, import_is_transpose/import_is_inverse, "
-              "export_import_orientation, export_import_pose, export_coord, import_shift_pixels/import_shift_angstrom, version_names, halfset_parity, renumber_spec, "
-              "renumber_halfset, import_ids_halfset, zfill_parse, names_parse_v3/v4, names_generated_v3/v4) for all orientations incl. gimbal lock, all positions/shifts/pixel sizes, all id lists; tied to the source by 15 "
-              "regenerated anchors (Euler sequences, slot/sign pattern, shift sign and scaling, version dispatch, half-set table, column lists) and by a differential run of the "
-              "real export/import (in memory, through files, through the converters) against the model and an independent statement of the convention")
-LEVEL_NOTE = ("scipy's as_euler enters the theorems only through its post-condition (a hypothesis, checked numerically for every generated particle and probed); file "
-              "round trips are validated within 6-decimal STAR precision, not proved; the $-format substitution is proved to carry the numbers for the documented "
-              "format shapes (one $x.. and one $y.. sequence); other formats (repeated / leftover sequences) are compared string for string with the model only")
-TECHNIQUE = "Lean 4 proof (matrix identities over any commutative ring, field arithmetic, list induction) + regenerated tables/operators + differential correspondence"
+              "export_import_orientation, export_import_pose, export_coord, import_coord, import_shift_pixels/import_shift_angstrom/import_shift_total, version_names, sniff_version, "
+              "halfset_parity, renumber_spec, renumber_halfset, import_ids_halfset, import_ids_nodup, import_identity (geom3 = parsed number, class unchanged), class_survives, "
+              "zfill_parse, names_parse_v3/v4, names_generated_v3/v4, names_parse_fallback_v3/v4) for all orientations incl. gimbal lock, all positions/shifts/per-row pixel sizes, "
+              "all id lists; every model function fails (Option) instead of defaulting on what the code would reject, and the theorems prove it does not fail on the documented "
+              "tables; tied to the source by rename-insensitive regenerated anchors (Euler sequences, slot/sign pattern, shift sign/scaling operator, version dispatch and sniffing, "
+              "half-set table, column lists, fallback tomogram parsing, signature defaults, whole-body digests of 16 functions) and by a differential run of the real "
+              "export/import (in memory, through files, through the four converters, with original entries, with omitted keywords, with re-used caller frames / rewritten paths) "
+              "against the model (run with the driver's own Euler extractor) and an independent statement of the convention")
+LEVEL_NOTE = ("scipy's as_euler enters the theorems only through its post-condition (a hypothesis, checked numerically for every generated particle and probed); the model is "
+              "executed with the driver's own extractor whose post-condition is checked the same way; file round trips are validated within 6-decimal STAR precision, not "
+              "proved; the $-format substitution is proved to carry the numbers for the documented format shapes (one $x.. and one $y.. sequence); other formats (repeated / "
+              "leftover sequences) are compared string for string with the model only; binning is outside the quantifier (always 1); whole-body digests are opaque: a changed "
+              "digest says that a frozen function changed, the normalised bodies in the evidence say where")
+TECHNIQUE = "Lean 4 proof (matrix identities over any commutative ring, field arithmetic, list induction) + regenerated tables/operators/defaults/body digests + differential correspondence"
 DESIGN_REF = "DESIGN.md section 4, C03; Appendix A.4"
